@@ -1,1 +1,1772 @@
-(* placeholder: to be written *)
+(** C13 — refinement proof for the safe-price module.
+
+    ring + lookup  =  prefix sums of the start-of-round reserves.
+
+    Layers:
+      1. [run_updates_layout]  the ring the contract builds = [layout N] of the list of observations
+                               ever recorded (storage refinement, any capacity N >= 2);
+      2. [chain_closed]        the j-th recorded observation = closed-form prefix sum of [start];
+      3. [bs_loop_spec] ...    binary search on a ring laid out that way finds the exact or an adjacent
+                               observation, needs no more than N iterations, never leaves 1..len;
+      4. [lookup_exact]        get_price_observation x = the prefix sum up to x (last / extrapolated /
+                               exact / interpolated);
+      5. [safe_price_formula], [lp_safe_price_formula], [*_reject]. *)
+From MX Require Import Base.Prelude Gen.Params Model.Pair Model.SafePrice Proofs.PairInv.
+
+(** ================================================================== specification *)
+
+(** [sumr f a b] = f (a+1) + ... + f b *)
+Fixpoint sum_n (f : Z -> Z) (a : Z) (n : nat) : Z :=
+  match n with O => 0 | S m => sum_n f a m + f (a + Z.of_nat (S m)) end.
+Definition sumr (f : Z -> Z) (a b : Z) : Z := sum_n f a (Z.to_nat (b - a)).
+
+(** Reserves in effect at the start of round [t]: those seen by the first update call (with an
+    initialised pool) made in a round >= t; the present reserves [c] if there is no such call.
+    (Every reserve-changing operation makes such a call BEFORE it changes the reserves, so between
+    the end of one round with operations and the next call nothing moves.) *)
+Fixpoint start (us : list upd) (c : upd) (t : Z) : upd :=
+  match us with
+  | [] => c
+  | u :: r => if negb (u_zero u) && (t <=? u_round u) then u else start r c t
+  end.
+
+Definition cur_upd (ev : env) : upd := mkU (e_now ev) (e_r1 ev) (e_r2 ev) (e_S ev).
+
+(** first update call that recorded an observation *)
+Definition first_upd (us : list upd) : upd := hd (mkU 0 0 0 0) (eff us).
+
+(** accumulated value of component [g] at round [x] *)
+Definition acc (g : upd -> Z) (us : list upd) (c : upd) (x : Z) : Z :=
+  g (first_upd us) + sumr (fun t => g (start us c t)) (u_round (first_upd us)) x.
+
+Definition acc_obs (us : list upd) (c : upd) (x : Z) : obs :=
+  mkO (acc u_r1 us c x) (acc u_r2 us c x) (1 + x - u_round (first_upd us)) x (acc u_S us c x).
+
+(** rounds never decrease along the calls; amounts are BigUint *)
+Fixpoint nondecr_from (lr : Z) (us : list upd) : Prop :=
+  match us with [] => True | u :: t => lr <= u_round u /\ nondecr_from (u_round u) t end.
+Definition nonneg_upd (u : upd) : Prop := 0 <= u_r1 u /\ 0 <= u_r2 u /\ 0 <= u_S u.
+Definition wf_calls (us : list upd) : Prop := nondecr_from 0 us /\ Forall nonneg_upd us.
+
+Fixpoint strict_from (lr : Z) (E : list upd) : Prop :=
+  match E with [] => True | u :: t => lr < u_round u /\ strict_from (u_round u) t end.
+Definition pos_upd (u : upd) : Prop := 1 <= u_r1 u /\ 1 <= u_r2 u /\ 1 <= u_S u.
+
+Definition last_round (E : list upd) : Z := u_round (last E (mkU 0 0 0 0)).
+
+(** ================================================================== sums *)
+Lemma sumr_same f a : sumr f a a = 0.
+Proof. unfold sumr. rewrite Z.sub_diag. reflexivity. Qed.
+
+Lemma sumr_succ f a b : a <= b -> sumr f a (b + 1) = sumr f a b + f (b + 1).
+Proof.
+  intros H. unfold sumr. replace (b + 1 - a) with (Z.succ (b - a)) by lia.
+  rewrite Z2Nat.inj_succ by lia.
+  set (n := Z.to_nat (b - a)).
+  assert (Hn : Z.of_nat n = b - a) by (subst n; rewrite Z2Nat.id; lia).
+  cbn [sum_n]. rewrite Nat2Z.inj_succ, Hn. f_equal. f_equal. lia.
+Qed.
+
+Lemma sumr_ind (P : Z -> Prop) a :
+  P a -> (forall b, a <= b -> P b -> P (b + 1)) -> forall b, a <= b -> P b.
+Proof.
+  intros H0 Hs b Hb. replace b with (a + Z.of_nat (Z.to_nat (b - a))) by (rewrite Z2Nat.id; lia).
+  induction (Z.to_nat (b - a)) as [|n IH].
+  - replace (a + Z.of_nat 0) with a by lia. exact H0.
+  - replace (a + Z.of_nat (S n)) with (a + Z.of_nat n + 1) by lia. apply Hs; [lia | exact IH].
+Qed.
+
+Lemma sumr_split f a b c : a <= b -> b <= c -> sumr f a c = sumr f a b + sumr f b c.
+Proof.
+  intros Hab Hbc. revert c Hbc. apply (sumr_ind (fun c => sumr f a c = sumr f a b + sumr f b c)).
+  - rewrite sumr_same. lia.
+  - intros c Hc IH. rewrite !sumr_succ by lia. lia.
+Qed.
+
+Lemma sumr_ext f g a b : (forall t, a < t <= b -> f t = g t) -> sumr f a b = sumr g a b.
+Proof.
+  destruct (Z_le_gt_dec a b) as [Hab|Hab].
+  - revert b Hab. apply (sumr_ind (fun b => (forall t, a < t <= b -> f t = g t) -> sumr f a b = sumr g a b)).
+    + intros _. rewrite !sumr_same. reflexivity.
+    + intros b Hb IH H. rewrite !sumr_succ by lia. rewrite IH, H; try lia. intros t Ht. apply H. lia.
+  - intros _. unfold sumr. replace (Z.to_nat (b - a)) with O by lia. reflexivity.
+Qed.
+
+Lemma sumr_const f a b v : a <= b -> (forall t, a < t <= b -> f t = v) -> sumr f a b = (b - a) * v.
+Proof.
+  intros Hab. revert b Hab.
+  apply (sumr_ind (fun b => (forall t, a < t <= b -> f t = v) -> sumr f a b = (b - a) * v)).
+  - intros _. rewrite sumr_same. lia.
+  - intros b Hb IH H. rewrite sumr_succ by lia. rewrite IH, H; try lia. intros t Ht. apply H. lia.
+Qed.
+
+Lemma sumr_lower f a b : a <= b -> (forall t, a < t <= b -> 1 <= f t) -> b - a <= sumr f a b.
+Proof.
+  intros Hab. revert b Hab.
+  apply (sumr_ind (fun b => (forall t, a < t <= b -> 1 <= f t) -> b - a <= sumr f a b)).
+  - intros _. rewrite sumr_same. lia.
+  - intros b Hb IH H. rewrite sumr_succ by lia.
+    assert (1 <= f (b + 1)) by (apply H; lia).
+    assert (b - a <= sumr f a b) by (apply IH; intros t Ht; apply H; lia). lia.
+Qed.
+
+(** ================================================================== lists *)
+Lemma nth_skipn_ (A : Type) (d : A) n : forall (l : list A) i, nth i (skipn n l) d = nth (n + i) l d.
+Proof.
+  induction n as [|n IH]; intros l i; [reflexivity|].
+  destruct l as [|x l]; simpl; [destruct i; reflexivity | apply IH].
+Qed.
+
+Lemma nth_firstn_ (A : Type) (d : A) n : forall (l : list A) i, (i < n)%nat -> nth i (firstn n l) d = nth i l d.
+Proof.
+  induction n as [|n IH]; intros l i Hi; [lia|].
+  destruct l as [|x l]; simpl; [destruct i; reflexivity|].
+  destruct i; [reflexivity | apply IH; lia].
+Qed.
+
+Lemma skipn_app_le (A : Type) n (l1 l2 : list A) : (n <= length l1)%nat -> skipn n (l1 ++ l2) = skipn n l1 ++ l2.
+Proof.
+  intros H. rewrite skipn_app. replace (n - length l1)%nat with O by lia. reflexivity.
+Qed.
+
+Lemma firstn_app_le (A : Type) n (l1 l2 : list A) : (n <= length l1)%nat -> firstn n (l1 ++ l2) = firstn n l1.
+Proof.
+  intros H. rewrite firstn_app. replace (n - length l1)%nat with O by lia. simpl. apply app_nil_r.
+Qed.
+
+Lemma firstn_skipn_1 (A : Type) n : forall l : list A, firstn n (skipn 1 l) = skipn 1 (firstn (S n) l).
+Proof. intros [|x l]; [rewrite !firstn_nil; reflexivity | reflexivity]. Qed.
+
+Lemma last_nth (A : Type) (d : A) (l : list A) : last l d = nth (length l - 1) l d.
+Proof.
+  induction l as [|x l IH]; [reflexivity|].
+  destruct l as [|y l]; [reflexivity|].
+  change (last (x :: y :: l) d) with (last (y :: l) d). rewrite IH. simpl.
+  rewrite Nat.sub_0_r. reflexivity.
+Qed.
+
+Lemma skipn_skipn_ (A : Type) y : forall x (l : list A), skipn x (skipn y l) = skipn (y + x) l.
+Proof.
+  induction y as [|y IH]; intros x l; [reflexivity|].
+  destruct l as [|z l]; [rewrite !skipn_nil; reflexivity | apply IH].
+Qed.
+
+(** rotation used by [layout] *)
+Definition rot (a : nat) (tl : list obs) : list obs := skipn a tl ++ firstn a tl.
+
+Lemma rot_length a tl : length (rot a tl) = length tl.
+Proof. unfold rot. rewrite app_length, skipn_length, firstn_length. lia. Qed.
+
+(** overwriting the slot after the newest one = dropping the oldest and appending *)
+Lemma rot_step_pos a tl o : (0 < a)%nat -> (a <= length tl)%nat ->
+  firstn (length tl - a) (rot a tl) ++ o :: skipn (S (length tl - a)) (rot a tl)
+  = rot (a - 1) (skipn 1 tl ++ [o]).
+Proof.
+  intros Ha Hl. unfold rot.
+  assert (Hsk : length (skipn a tl) = (length tl - a)%nat) by apply skipn_length.
+  assert (Hfn : length (firstn a tl) = a) by (rewrite firstn_length; lia).
+  assert (Hl1 : length (skipn 1 tl) = (length tl - 1)%nat) by apply skipn_length.
+  rewrite <- Hsk.
+  rewrite firstn_app_le by lia. rewrite firstn_all.
+  replace (S (length (skipn a tl))) with (length (skipn a tl) + 1)%nat by lia.
+  rewrite <- skipn_skipn_. rewrite skipn_app_le by lia. rewrite skipn_all. simpl app at 2.
+  rewrite skipn_app_le by lia. rewrite firstn_app_le by lia.
+  rewrite skipn_skipn_. replace (1 + (a - 1))%nat with a by lia.
+  rewrite firstn_skipn_1. replace (S (a - 1)) with a by lia.
+  rewrite <- app_assoc. reflexivity.
+Qed.
+
+Lemma rot_step_zero tl o : (1 <= length tl)%nat ->
+  o :: skipn 1 (rot 0 tl) = rot (length tl - 1) (skipn 1 tl ++ [o]).
+Proof.
+  intros Hl. unfold rot. simpl skipn at 2. simpl firstn at 1. rewrite app_nil_r.
+  assert (Hl1 : length (skipn 1 tl) = (length tl - 1)%nat) by apply skipn_length.
+  rewrite <- Hl1.
+  rewrite skipn_app_le by lia. rewrite skipn_all. rewrite firstn_app_le by lia. rewrite firstn_all.
+  reflexivity.
+Qed.
+
+(** ================================================================== layer 1: storage refinement *)
+Section WithN.
+Variable N : Z.
+Hypothesis HN : 2 <= N.
+
+Lemma vlen_app l o : vlen (l ++ [o]) = vlen l + 1.
+Proof. unfold vlen. rewrite app_length. simpl. lia. Qed.
+
+Lemma vlen_nonneg l : 0 <= vlen l.
+Proof. unfold vlen. lia. Qed.
+
+Lemma layout_small l : vlen l <= N -> layout N l = mkRing l (vlen l).
+Proof. intros H. unfold layout. apply Z.leb_le in H. rewrite H. reflexivity. Qed.
+
+Definition lay_cur (k : Z) : Z := (k - 1) mod N + 1.
+
+Lemma lay_cur_range k : 1 <= lay_cur k <= N.
+Proof. unfold lay_cur. pose proof (Z.mod_pos_bound (k - 1) N). lia. Qed.
+
+Lemma lay_cur_next k : lay_cur (k + 1) = lay_cur k mod N + 1.
+Proof.
+  unfold lay_cur. f_equal. rewrite Zplus_mod_idemp_l. f_equal. lia.
+Qed.
+
+Lemma layout_ge l : N <= vlen l ->
+  layout N l = mkRing (rot (Z.to_nat (N - lay_cur (vlen l))) (skipn (Z.to_nat (vlen l - N)) l)) (lay_cur (vlen l)).
+Proof.
+  intros H. unfold layout. destruct (vlen l <=? N) eqn:E.
+  - apply Z.leb_le in E. assert (Hk : vlen l = N) by lia. rewrite Hk.
+    unfold lay_cur. rewrite Z.mod_small by lia. replace (N - (N - 1 + 1)) with 0 by lia.
+    rewrite Z.sub_diag. simpl. unfold rot. simpl. rewrite app_nil_r. f_equal. lia.
+  - reflexivity.
+Qed.
+
+(** what [update] writes, on a ring laid out by [layout], is the layout of the longer list *)
+Lemma layout_push l o :
+  let rg := layout N l in
+  let ni := if vlen (rg_obs rg) =? 0 then 1 else rg_cur rg mod N + 1 in
+  (if vlen (rg_obs rg) =? N then vset (rg_obs rg) ni o else Ok (rg_obs rg ++ [o]))
+    = Ok (rg_obs (layout N (l ++ [o]))) /\
+  rg_cur (layout N (l ++ [o])) = ni.
+Proof.
+  intros rg ni. subst rg ni.
+  pose proof (vlen_nonneg l) as Hk0.
+  destruct (Z_lt_ge_dec (vlen l) N) as [Hlt|Hge].
+  - rewrite layout_small by lia. rewrite layout_small by (rewrite vlen_app; lia). simpl.
+    replace (vlen l =? N) with false by (symmetry; apply Z.eqb_neq; lia).
+    split; [reflexivity|]. rewrite vlen_app.
+    destruct (vlen l =? 0) eqn:E; [apply Z.eqb_eq in E; lia|].
+    apply Z.eqb_neq in E. rewrite Z.mod_small by lia. reflexivity.
+  - rewrite (layout_ge l) by lia. rewrite (layout_ge (l ++ [o])) by (rewrite vlen_app; lia). simpl.
+    rewrite vlen_app. rewrite lay_cur_next.
+    pose proof (lay_cur_range (vlen l)) as Hc.
+    set (c := lay_cur (vlen l)) in *. clearbody c.
+    set (tl := skipn (Z.to_nat (vlen l - N)) l).
+    assert (Htl : length tl = Z.to_nat N).
+    { subst tl. rewrite skipn_length. unfold vlen in *. lia. }
+    assert (Htl' : skipn (Z.to_nat (vlen l + 1 - N)) (l ++ [o]) = skipn 1 tl ++ [o]).
+    { replace (Z.to_nat (vlen l + 1 - N)) with (Z.to_nat (vlen l - N) + 1)%nat by lia.
+      rewrite <- skipn_skipn_. rewrite skipn_app_le by (unfold vlen in *; lia). fold tl.
+      rewrite skipn_app_le by lia. reflexivity. }
+    rewrite Htl'.
+    assert (Hlen : vlen (rot (Z.to_nat (N - c)) tl) = N).
+    { unfold vlen. rewrite rot_length, Htl. lia. }
+    rewrite Hlen. rewrite Z.eqb_refl.
+    replace (N =? 0) with false by (symmetry; apply Z.eqb_neq; lia).
+    split; [|reflexivity].
+    unfold vset. rewrite Hlen.
+    destruct (Z_lt_ge_dec c N) as [Hc1|Hc1].
+    + rewrite Z.mod_small by lia.
+      replace ((1 <=? c + 1) && (c + 1 <=? N)) with true
+        by (symmetry; apply andb_true_intro; split; apply Z.leb_le; lia).
+      f_equal.
+      replace (Z.to_nat (c + 1 - 1)) with (length tl - Z.to_nat (N - c))%nat by lia.
+      replace (Z.to_nat (c + 1)) with (S (length tl - Z.to_nat (N - c))) by lia.
+      rewrite rot_step_pos by lia. f_equal. lia.
+    + assert (c = N) by lia. subst c. rewrite Z_mod_same_full.
+      replace (0 + 1) with 1 by lia.
+      replace ((1 <=? 1) && (1 <=? N)) with true
+        by (symmetry; apply andb_true_intro; split; apply Z.leb_le; lia).
+      f_equal.
+      replace (Z.to_nat (N - N)) with 0%nat by lia.
+      replace (Z.to_nat (1 - 1)) with 0%nat by lia.
+      replace (Z.to_nat 1) with 1%nat by lia.
+      cbn [firstn app].
+      rewrite rot_step_zero by lia. f_equal. lia.
+Qed.
+
+(** pointwise view of the layout: index -> number (1-based) of the observation stored there *)
+Definition num (k c i : Z) : Z := if i <=? c then k - c + i else k - c - N + i.
+
+Lemma layout_len l : vlen (rg_obs (layout N l)) = Z.min (vlen l) N.
+Proof.
+  destruct (Z_le_gt_dec (vlen l) N) as [H|H].
+  - rewrite layout_small by lia. simpl. lia.
+  - rewrite layout_ge by lia. simpl. unfold vlen at 1. rewrite rot_length, skipn_length.
+    unfold vlen in *. lia.
+Qed.
+
+Lemma layout_cur l : rg_cur (layout N l) = if vlen l <=? N then vlen l else lay_cur (vlen l).
+Proof.
+  destruct (vlen l <=? N) eqn:E.
+  - apply Z.leb_le in E. rewrite layout_small by lia. reflexivity.
+  - apply Z.leb_gt in E. rewrite layout_ge by lia. reflexivity.
+Qed.
+
+Lemma layout_cur_range l : 0 < vlen l -> 1 <= rg_cur (layout N l) <= Z.min (vlen l) N.
+Proof.
+  intros H. rewrite layout_cur. destruct (vlen l <=? N) eqn:E.
+  - apply Z.leb_le in E. lia.
+  - apply Z.leb_gt in E. pose proof (lay_cur_range (vlen l)). lia.
+Qed.
+
+Lemma layout_cur_le l : rg_cur (layout N l) <= N.
+Proof.
+  rewrite layout_cur. destruct (vlen l <=? N) eqn:E.
+  - apply Z.leb_le in E. lia.
+  - pose proof (lay_cur_range (vlen l)). lia.
+Qed.
+
+Lemma vget_in l i : 1 <= i <= vlen l -> vget l i = Ok (nth (Z.to_nat (i - 1)) l obs0).
+Proof.
+  intros H. unfold vget.
+  replace ((1 <=? i) && (i <=? vlen l)) with true; [reflexivity|].
+  symmetry. apply andb_true_intro. split; apply Z.leb_le; lia.
+Qed.
+
+Lemma vget_out l i : ~ (1 <= i <= vlen l) -> vget l i = Err EGuard.
+Proof.
+  intros H. unfold vget.
+  destruct ((1 <=? i) && (i <=? vlen l)) eqn:E; [|reflexivity].
+  apply andb_prop in E. destruct E as [E1 E2]. apply Z.leb_le in E1, E2. lia.
+Qed.
+
+Lemma layout_get l i :
+  1 <= i <= vlen (rg_obs (layout N l)) ->
+  vget (rg_obs (layout N l)) i
+  = Ok (nth (Z.to_nat (num (vlen l) (rg_cur (layout N l)) i - 1)) l obs0).
+Proof.
+  intros Hi. rewrite vget_in by exact Hi. f_equal. revert Hi.
+  destruct (Z_le_gt_dec (vlen l) N) as [H|H].
+  - rewrite layout_small by lia. simpl. intros Hi. unfold num.
+    replace (i <=? vlen l) with true by (symmetry; apply Z.leb_le; lia). f_equal. lia.
+  - rewrite layout_ge by lia. simpl. intros Hi.
+    pose proof (lay_cur_range (vlen l)) as Hc. set (c := lay_cur (vlen l)) in *. clearbody c.
+    assert (Hlen : vlen (rot (Z.to_nat (N - c)) (skipn (Z.to_nat (vlen l - N)) l)) = N).
+    { unfold vlen at 1. rewrite rot_length, skipn_length. unfold vlen in *. lia. }
+    rewrite Hlen in Hi. unfold rot, num.
+    assert (Hsk : length (skipn (Z.to_nat (N - c)) (skipn (Z.to_nat (vlen l - N)) l)) = Z.to_nat c).
+    { rewrite !skipn_length. unfold vlen in *. lia. }
+    destruct (i <=? c) eqn:E.
+    + apply Z.leb_le in E. rewrite app_nth1 by lia. rewrite !nth_skipn_. f_equal. lia.
+    + apply Z.leb_gt in E. rewrite app_nth2 by lia. rewrite Hsk.
+      rewrite nth_firstn_ by lia. rewrite nth_skipn_. f_equal. lia.
+Qed.
+
+Lemma layout_last l : 0 < vlen l ->
+  vget (rg_obs (layout N l)) (rg_cur (layout N l)) = Ok (last l obs0).
+Proof.
+  intros H. pose proof (layout_cur_range l H) as Hc.
+  rewrite layout_get by (rewrite layout_len; lia). f_equal.
+  unfold num. rewrite Z.leb_refl. rewrite last_nth. f_equal. unfold vlen in *. lia.
+Qed.
+
+Lemma layout_oldest l : 0 < vlen l ->
+  get_oldest N (layout N l) = Ok (nth (Z.to_nat (Z.max 0 (vlen l - N))) l obs0).
+Proof.
+  intros H. unfold get_oldest. pose proof (layout_cur_range l H) as Hc.
+  rewrite layout_len.
+  replace (Z.min (vlen l) N =? 0) with false by (symmetry; apply Z.eqb_neq; lia). simpl negb. cbv iota.
+  destruct (Z.min (vlen l) N =? N) eqn:E.
+  - apply Z.eqb_eq in E.
+    assert (Hidx : 1 <= rg_cur (layout N l) mod N + 1 <= N)
+      by (pose proof (Z.mod_pos_bound (rg_cur (layout N l)) N); lia).
+    rewrite layout_get by (rewrite layout_len; lia). f_equal. f_equal.
+    unfold num. set (c := rg_cur (layout N l)) in *. clearbody c.
+    destruct (Z_lt_ge_dec c N) as [Hlt|Hge].
+    + rewrite Z.mod_small by lia.
+      replace (c + 1 <=? c) with false by (symmetry; apply Z.leb_gt; lia). lia.
+    + assert (c = N) by lia. subst c. rewrite Z_mod_same_full.
+      replace (0 + 1 <=? N) with true by (symmetry; apply Z.leb_le; lia). lia.
+  - apply Z.eqb_neq in E. rewrite layout_get by (rewrite layout_len; lia). f_equal.
+    unfold num. replace (1 <=? rg_cur (layout N l)) with true by (symmetry; apply Z.leb_le; lia).
+    rewrite layout_cur. replace (vlen l <=? N) with true by (symmetry; apply Z.leb_le; lia).
+    f_equal. lia.
+Qed.
+
+(** ------------------------------------------------------------------ chains of observations *)
+Definition u0 : upd := mkU 0 0 0 0.
+
+Lemma chain_from_length p E : length (chain_from p E) = length E.
+Proof. revert p. induction E as [|u E IH]; intros p; simpl; [reflexivity | rewrite IH; reflexivity]. Qed.
+
+Lemma last_indep (A : Type) (l : list A) d d' : l <> [] -> last l d = last l d'.
+Proof.
+  induction l as [|x l IH]; intros H; [congruence|].
+  destruct l as [|y l]; [reflexivity|]. simpl in *. apply IH. discriminate.
+Qed.
+
+Lemma last_cons (A : Type) (a : A) l d : last (a :: l) d = last l a.
+Proof.
+  destruct l as [|b l]; [reflexivity|].
+  change (last (a :: b :: l) d) with (last (b :: l) d). apply last_indep. discriminate.
+Qed.
+
+Lemma chain_from_snoc E : forall p u,
+  chain_from p (E ++ [u]) = chain_from p E ++ [nobs (last (chain_from p E) p) u].
+Proof.
+  induction E as [|x E IH]; intros p u; [reflexivity|].
+  change ((x :: E) ++ [u]) with (x :: (E ++ [u])).
+  change (chain_from p (x :: E ++ [u])) with (nobs p x :: chain_from (nobs p x) (E ++ [u])).
+  rewrite IH.
+  change (chain_from p (x :: E)) with (nobs p x :: chain_from (nobs p x) E).
+  rewrite last_cons. reflexivity.
+Qed.
+
+Lemma chain_last_round E : ob_round (last (chain E) obs0) = last_round E.
+Proof.
+  unfold chain, last_round. induction E as [|u E IH] using rev_ind; [reflexivity|].
+  rewrite chain_from_snoc, !last_last. reflexivity.
+Qed.
+
+Lemma chain_length E : vlen (chain E) = Z.of_nat (length E).
+Proof. unfold vlen, chain. rewrite chain_from_length. reflexivity. Qed.
+
+Lemma chain_snoc E u : chain (E ++ [u]) = chain E ++ [nobs (last (chain E) obs0) u].
+Proof. apply chain_from_snoc. Qed.
+
+(** ------------------------------------------------------------------ ordering of the recorded rounds *)
+Lemma strict_snoc E : forall a u,
+  strict_from a E -> u_round (last E (mkU a 0 0 0)) < u_round u -> strict_from a (E ++ [u]).
+Proof.
+  induction E as [|x E IH]; intros a u Hs Hl; simpl in *; [auto|].
+  destruct Hs as [Hax Hs]. split; [exact Hax|]. apply IH; [exact Hs|].
+  destruct E as [|y E]; [exact Hl|].
+  rewrite (last_indep _ (y :: E) _ (mkU a 0 0 0)) by discriminate. exact Hl.
+Qed.
+
+Lemma strict_nth E : forall a j, strict_from a E -> (j < length E)%nat -> a < u_round (nth j E u0).
+Proof.
+  induction E as [|x E IH]; intros a j Hs Hj; simpl in *; [lia|].
+  destruct Hs as [Hax Hs]. destruct j; [exact Hax|].
+  specialize (IH (u_round x) j Hs). lia.
+Qed.
+
+Lemma strict_mono E : forall a i j, strict_from a E -> (i < j)%nat -> (j < length E)%nat ->
+  u_round (nth i E u0) < u_round (nth j E u0).
+Proof.
+  induction E as [|x E IH]; intros a i j Hs Hij Hj; simpl in *; [lia|].
+  destruct Hs as [Hax Hs]. destruct j; [lia|]. destruct i.
+  - apply (strict_nth E (u_round x) j Hs). lia.
+  - apply (IH (u_round x)); [exact Hs | lia | lia].
+Qed.
+
+Lemma strict_last_pos E : strict_from 0 E -> E <> [] -> 0 < last_round E.
+Proof.
+  intros Hs Hne. unfold last_round. rewrite last_nth.
+  apply (strict_nth E 0); [exact Hs|]. destruct E; [congruence | simpl; lia].
+Qed.
+
+Lemma nondecr_weaken us : forall a b, nondecr_from a us -> b <= a -> nondecr_from b us.
+Proof. destruct us as [|u t]; intros a b H Hb; simpl in *; [auto | split; [lia | tauto]]. Qed.
+
+(** ------------------------------------------------------------------ one update call on a laid-out ring *)
+Lemma layout_eta l o : forall obs' ni,
+  obs' = rg_obs (layout N (l ++ [o])) -> rg_cur (layout N (l ++ [o])) = ni ->
+  mkRing obs' ni = layout N (l ++ [o]).
+Proof. intros obs' ni -> <-. destruct (layout N (l ++ [o])); reflexivity. Qed.
+
+Lemma update_layout E u :
+  strict_from 0 E -> last_round E <= u_round u ->
+  update_u N (layout N (chain E)) u = Ok (layout N (chain (E ++ eff_from (last_round E) [u]))).
+Proof.
+  intros Hs Hle. unfold update_u, update. simpl eff_from.
+  change ((u_r1 u =? 0) || (u_r2 u =? 0) || (u_S u =? 0)) with (u_zero u).
+  destruct (u_zero u) eqn:Ez; simpl orb; cbv iota; [rewrite app_nil_r; reflexivity|].
+  pose proof (layout_cur_le (chain E)) as Hcl. apply Z.leb_le in Hcl. rewrite Hcl.
+  rewrite layout_len.
+  destruct E as [|x E'] eqn:EE.
+  - (* nothing recorded yet *)
+    unfold chain at 1 2 3 4 5 6. simpl chain_from. change (vlen []) with 0.
+    replace (Z.min 0 N) with 0 by lia. rewrite Z.eqb_refl. cbn [bind].
+    change (last_round []) with 0 in *. change (ob_round obs0) with 0.
+    rewrite (Z.eqb_sym (u_round u) 0).
+    destruct (0 =? u_round u) eqn:E0; [reflexivity|].
+    unfold compute_new. change (ob_round obs0 =? 0) with true. cbv iota. cbn [bind].
+    pose proof (layout_push [] (nobs obs0 u)) as [Hp Hc].
+    rewrite layout_len in Hp, Hc. change (vlen []) with 0 in Hp, Hc.
+    replace (Z.min 0 N) with 0 in Hp, Hc by lia. rewrite Z.eqb_refl in Hp, Hc.
+    assert (Hn : nobs obs0 u = mkO (ob_a1 obs0 + 1 * u_r1 u) (ob_a2 obs0 + 1 * u_r2 u) (ob_w obs0 + 1)
+                                   (u_round u) (ob_lp obs0 + 1 * u_S u)) by reflexivity.
+    rewrite <- Hn. change (chain []) with (@nil obs). rewrite Hp. cbn [bind]. f_equal.
+    change (chain ([] ++ [u])) with ([] ++ [nobs obs0 u]).
+    apply layout_eta; [reflexivity | exact Hc].
+  - rewrite <- EE in *. assert (Hne : E <> []) by (rewrite EE; discriminate). clear EE x E'.
+    assert (Hk : 0 < vlen (chain E)).
+    { rewrite chain_length. destruct E; [congruence | simpl; lia]. }
+    replace (Z.min (vlen (chain E)) N =? 0) with false by (symmetry; apply Z.eqb_neq; lia).
+    rewrite layout_last by exact Hk. simpl bind.
+    rewrite chain_last_round.
+    pose proof (strict_last_pos E Hs Hne) as Hpos.
+    rewrite (Z.eqb_sym (u_round u)).
+    destruct (last_round E =? u_round u) eqn:Er; simpl; [rewrite app_nil_r; reflexivity|].
+    unfold compute_new. rewrite chain_last_round.
+    replace (last_round E =? 0) with false by (symmetry; apply Z.eqb_neq; lia).
+    unfold sub_chk. replace (u_round u <? last_round E) with false by (symmetry; apply Z.ltb_ge; lia).
+    simpl bind.
+    pose proof (layout_push (chain E) (nobs (last (chain E) obs0) u)) as [Hp Hc].
+    rewrite layout_len in Hp, Hc.
+    replace (Z.min (vlen (chain E)) N =? 0) with false in Hc by (symmetry; apply Z.eqb_neq; lia).
+    replace (Z.min (vlen (chain E)) N =? 0) with false in Hp by (symmetry; apply Z.eqb_neq; lia).
+    assert (Hn : nobs (last (chain E) obs0) u =
+                 mkO (ob_a1 (last (chain E) obs0) + (u_round u - last_round E) * u_r1 u)
+                     (ob_a2 (last (chain E) obs0) + (u_round u - last_round E) * u_r2 u)
+                     (ob_w (last (chain E) obs0) + (u_round u - last_round E)) (u_round u)
+                     (ob_lp (last (chain E) obs0) + (u_round u - last_round E) * u_S u)).
+    { unfold nobs. rewrite chain_last_round.
+      replace (last_round E =? 0) with false by (symmetry; apply Z.eqb_neq; lia). reflexivity. }
+    rewrite <- Hn. rewrite Hp. simpl bind. f_equal. rewrite chain_snoc.
+    apply layout_eta; [reflexivity | exact Hc].
+Qed.
+
+Lemma last_round_snoc E u : last_round (E ++ [u]) = u_round u.
+Proof. unfold last_round. rewrite last_last. reflexivity. Qed.
+
+(** C13_ring / C13_update, storage part: the contract's ring after any sequence of calls is the
+    layout of the observations recorded so far *)
+Lemma run_updates_layout us : forall E,
+  strict_from 0 E -> nondecr_from (last_round E) us ->
+  run_updates N (layout N (chain E)) us = Ok (layout N (chain (E ++ eff_from (last_round E) us))).
+Proof.
+  induction us as [|u t IH]; intros E Hs Hnd.
+  - simpl. rewrite app_nil_r. reflexivity.
+  - destruct Hnd as [Hle Hnd]. simpl run_updates. rewrite update_layout by assumption.
+    cbn [bind]. simpl eff_from.
+    destruct (u_zero u || (u_round u =? last_round E)) eqn:Ec.
+    + rewrite app_nil_r. apply IH; [exact Hs|]. apply (nondecr_weaken t (u_round u)); assumption.
+    + apply orb_false_elim in Ec. destruct Ec as [_ Ec]. apply Z.eqb_neq in Ec.
+      rewrite IH.
+      * rewrite last_round_snoc. rewrite <- app_assoc. reflexivity.
+      * apply strict_snoc; [exact Hs|]. fold (last_round E). lia.
+      * rewrite last_round_snoc. exact Hnd.
+Qed.
+
+Lemma eff_strict us : forall lr, nondecr_from lr us -> strict_from lr (eff_from lr us).
+Proof.
+  induction us as [|u t IH]; intros lr H; simpl in *; [exact I|].
+  destruct H as [Hle H].
+  destruct (u_zero u || (u_round u =? lr)) eqn:Ec.
+  - apply IH. apply (nondecr_weaken t (u_round u)); assumption.
+  - apply orb_false_elim in Ec. destruct Ec as [_ Ec]. apply Z.eqb_neq in Ec.
+    simpl. split; [lia | apply IH; exact H].
+Qed.
+
+Lemma eff_pos us : forall lr, Forall nonneg_upd us -> Forall pos_upd (eff_from lr us).
+Proof.
+  induction us as [|u t IH]; intros lr H; simpl; [constructor|].
+  inversion H as [|? ? Hu Ht]; subst.
+  destruct (u_zero u || (u_round u =? lr)) eqn:Ec; [apply IH; exact Ht|].
+  apply orb_false_elim in Ec. destruct Ec as [Ez _]. unfold u_zero in Ez.
+  apply orb_false_elim in Ez. destruct Ez as [Ez E3]. apply orb_false_elim in Ez. destruct Ez as [E1 E2].
+  apply Z.eqb_neq in E1, E2, E3. constructor; [|apply IH; exact Ht].
+  unfold nonneg_upd, pos_upd in *. lia.
+Qed.
+
+Lemma eff_incl us : forall lr u, In u (eff_from lr us) -> In u us.
+Proof.
+  induction us as [|x t IH]; intros lr u H; simpl in *; [exact H|].
+  destruct (u_zero x || (u_round x =? lr)); [right; eapply IH; exact H|].
+  destruct H as [H|H]; [left; exact H | right; eapply IH; exact H].
+Qed.
+
+(** ================================================================== layer 2: closed form *)
+Lemma start_app E F c t : start (E ++ F) c t = start E (start F c t) t.
+Proof.
+  induction E as [|u E IH]; [reflexivity|]. simpl.
+  destruct (negb (u_zero u) && (t <=? u_round u)); [reflexivity | exact IH].
+Qed.
+
+(** beyond the last call the present reserves are in effect *)
+Lemma start_beyond E : forall c t, (forall u, In u E -> u_round u < t) -> start E c t = c.
+Proof.
+  induction E as [|u E IH]; intros c t H; [reflexivity|]. simpl.
+  replace (t <=? u_round u) with false
+    by (symmetry; apply Z.leb_gt; apply H; left; reflexivity).
+  rewrite andb_false_r. apply IH. intros v Hv. apply H. right. exact Hv.
+Qed.
+
+(** up to the last recorded round the present reserves are irrelevant *)
+Lemma start_within E : forall a c c' t, strict_from a E -> Forall pos_upd E -> E <> [] ->
+  t <= last_round E -> start E c t = start E c' t.
+Proof.
+  induction E as [|u E IH]; intros a c c' t Hs Hp Hne Ht; [congruence|].
+  simpl. destruct (negb (u_zero u) && (t <=? u_round u)) eqn:Ec; [reflexivity|].
+  destruct Hs as [Hau Hs]. inversion Hp as [|? ? Hu Hp']; subst.
+  destruct E as [|v E].
+  - exfalso. unfold last_round in Ht. simpl in Ht.
+    assert (Hz : u_zero u = false).
+    { unfold u_zero, pos_upd in *. destruct Hu as (H1 & H2 & H3).
+      replace (u_r1 u =? 0) with false by (symmetry; apply Z.eqb_neq; lia).
+      replace (u_r2 u =? 0) with false by (symmetry; apply Z.eqb_neq; lia).
+      replace (u_S u =? 0) with false by (symmetry; apply Z.eqb_neq; lia). reflexivity. }
+    rewrite Hz in Ec. simpl in Ec. apply Z.leb_gt in Ec. lia.
+  - apply (IH (u_round u)); [exact Hs | exact Hp' | discriminate |].
+    unfold last_round in *. rewrite last_cons in Ht. rewrite (last_indep _ (v :: E) _ u) by discriminate.
+    exact Ht.
+Qed.
+
+Lemma pos_not_zero u : pos_upd u -> u_zero u = false.
+Proof.
+  unfold u_zero, pos_upd. intros (H1 & H2 & H3).
+  replace (u_r1 u =? 0) with false by (symmetry; apply Z.eqb_neq; lia).
+  replace (u_r2 u =? 0) with false by (symmetry; apply Z.eqb_neq; lia).
+  replace (u_S u =? 0) with false by (symmetry; apply Z.eqb_neq; lia). reflexivity.
+Qed.
+
+Definition accE (g : upd -> Z) (E : list upd) (c : upd) (x : Z) : Z :=
+  g (hd u0 E) + sumr (fun t => g (start E c t)) (u_round (hd u0 E)) x.
+
+Definition sel_ok (ga : obs -> Z) (g : upd -> Z) : Prop :=
+  ga obs0 = 0 /\
+  forall p u, ga (nobs p u) = ga p + (if ob_round p =? 0 then 1 else u_round u - ob_round p) * g u.
+
+Lemma sel_a1 : sel_ok ob_a1 u_r1. Proof. split; reflexivity. Qed.
+Lemma sel_a2 : sel_ok ob_a2 u_r2. Proof. split; reflexivity. Qed.
+Lemma sel_lp : sel_ok ob_lp u_S. Proof. split; reflexivity. Qed.
+
+Lemma strict_app_inv E : forall a F, strict_from a (E ++ F) -> strict_from a E.
+Proof.
+  induction E as [|x E IH]; intros a F H; simpl in *; [exact I|].
+  destruct H as [H1 H2]. split; [exact H1 | eapply IH; exact H2].
+Qed.
+
+Lemma strict_snoc_inv E : forall a u, strict_from a (E ++ [u]) -> u_round (last E (mkU a 0 0 0)) < u_round u.
+Proof.
+  induction E as [|x E IH]; intros a u H; simpl in H; [simpl; tauto|].
+  destruct H as [H1 H2]. specialize (IH _ _ H2).
+  destruct E as [|y E]; [exact IH|].
+  rewrite last_cons. rewrite (last_indep _ (y :: E) _ (mkU (u_round x) 0 0 0)) by discriminate. exact IH.
+Qed.
+
+Lemma nth_le_last E a j : strict_from a E -> (j < length E)%nat -> u_round (nth j E u0) <= last_round E.
+Proof.
+  intros Hs Hj. unfold last_round. rewrite last_nth. fold u0.
+  destruct (Nat.eq_dec j (length E - 1)) as [->|Hne]; [lia|].
+  pose proof (strict_mono E a j (length E - 1) Hs). lia.
+Qed.
+
+Lemma in_le_last E a v : strict_from a E -> In v E -> u_round v <= last_round E.
+Proof.
+  intros Hs Hin. destruct (In_nth E v u0 Hin) as (j & Hj & <-). eapply nth_le_last; eassumption.
+Qed.
+
+Lemma hd_app_ne (E : list upd) F d : E <> [] -> hd d (E ++ F) = hd d E.
+Proof. destruct E; [congruence | reflexivity]. Qed.
+
+Lemma hd_nth (E : list upd) d : hd d E = nth 0 E d.
+Proof. destruct E; reflexivity. Qed.
+
+(** sums over rounds up to the last recorded one do not see a later call *)
+Lemma accE_stable g E u c x : strict_from 0 E -> Forall pos_upd E -> E <> [] -> x <= last_round E ->
+  accE g (E ++ [u]) c x = accE g E c x.
+Proof.
+  intros Hs Hp Hne Hx. unfold accE. rewrite hd_app_ne by exact Hne. f_equal.
+  apply sumr_ext. intros t Ht. rewrite start_app. f_equal.
+  apply (start_within E 0); try assumption. lia.
+Qed.
+
+Lemma chain_round E : forall j, (j < length E)%nat -> ob_round (nth j (chain E) obs0) = u_round (nth j E u0).
+Proof.
+  induction E as [|u E IH] using rev_ind; intros j Hj; [simpl in Hj; lia|].
+  rewrite app_length in Hj. simpl in Hj. rewrite chain_snoc.
+  destruct (Nat.eq_dec j (length E)) as [->|Hne].
+  - rewrite app_nth2 by (unfold chain; rewrite chain_from_length; lia).
+    rewrite app_nth2 by lia. unfold chain. rewrite chain_from_length, Nat.sub_diag. reflexivity.
+  - rewrite app_nth1 by (unfold chain; rewrite chain_from_length; lia).
+    rewrite app_nth1 by lia. apply IH. lia.
+Qed.
+
+Lemma chain_last E : E <> [] -> last (chain E) obs0 = nth (length E - 1) (chain E) obs0.
+Proof. intros _. rewrite last_nth. unfold chain. rewrite chain_from_length. reflexivity. Qed.
+
+Lemma chain_closed ga g : sel_ok ga g -> forall E c,
+  strict_from 0 E -> Forall pos_upd E ->
+  forall j, (j < length E)%nat -> ga (nth j (chain E) obs0) = accE g E c (u_round (nth j E u0)).
+Proof.
+  intros [Hg0 Hgs]. induction E as [|u E IH] using rev_ind; intros c Hs Hp j Hj; [simpl in Hj; lia|].
+  rewrite app_length in Hj. simpl in Hj.
+  pose proof (strict_app_inv _ _ _ Hs) as HsE.
+  pose proof (strict_snoc_inv _ _ _ Hs) as Hlt. fold (last_round E) in Hlt.
+  apply Forall_app in Hp. destruct Hp as [HpE Hpu]. inversion Hpu as [|? ? Hu _]; subst.
+  rewrite chain_snoc.
+  destruct E as [|e0 E'] eqn:EE.
+  - (* first observation *)
+    assert (j = 0)%nat by (simpl in Hj; lia). subst j. simpl.
+    rewrite (Hgs obs0 u). rewrite Hg0. change (ob_round obs0 =? 0) with true. cbv iota.
+    unfold accE. cbn [hd app nth]. rewrite sumr_same. lia.
+  - rewrite <- EE in *. assert (Hne : E <> []) by (rewrite EE; discriminate). clear EE e0 E'.
+    assert (Hlen : length (chain E) = length E) by (unfold chain; apply chain_from_length).
+    destruct (Nat.eq_dec j (length E)) as [->|Hnj].
+    + rewrite app_nth2 by lia. rewrite app_nth2 by lia. rewrite Hlen, Nat.sub_diag. simpl nth.
+      rewrite Hgs. rewrite chain_last_round.
+      pose proof (strict_last_pos E HsE Hne) as Hpos.
+      replace (last_round E =? 0) with false by (symmetry; apply Z.eqb_neq; lia).
+      rewrite chain_last by exact Hne.
+      rewrite (IH c HsE HpE (length E - 1)%nat) by (destruct E; [congruence | simpl; lia]).
+      assert (Hlr : u_round (nth (length E - 1) E u0) = last_round E).
+      { unfold last_round. rewrite last_nth. reflexivity. }
+      rewrite Hlr.
+      rewrite <- (accE_stable g E u c (last_round E)) by (try assumption; lia).
+      unfold accE. rewrite hd_app_ne by exact Hne.
+      assert (H1 : u_round (hd u0 E) <= last_round E).
+      { rewrite hd_nth. apply (nth_le_last E 0); [exact HsE|]. destruct E; [congruence | simpl; lia]. }
+      rewrite (sumr_split _ (u_round (hd u0 E)) (last_round E) (u_round u)) by lia.
+      rewrite (sumr_const _ (last_round E) (u_round u) (g u)); [lia | lia |].
+      intros t Ht. rewrite start_app. rewrite start_beyond.
+      * simpl. rewrite (pos_not_zero u Hu). simpl.
+        replace (t <=? u_round u) with true by (symmetry; apply Z.leb_le; lia). reflexivity.
+      * intros v Hv. pose proof (in_le_last E 0 v HsE Hv). lia.
+    + rewrite app_nth1 by lia. rewrite app_nth1 by lia.
+      rewrite (IH c HsE HpE j) by lia. symmetry. apply accE_stable; try assumption.
+      apply (nth_le_last E 0); [exact HsE | lia].
+Qed.
+
+Lemma chain_weight E : strict_from 0 E ->
+  forall j, (j < length E)%nat -> ob_w (nth j (chain E) obs0) = 1 + u_round (nth j E u0) - u_round (hd u0 E).
+Proof.
+  induction E as [|u E IH] using rev_ind; intros Hs j Hj; [simpl in Hj; lia|].
+  rewrite app_length in Hj. simpl in Hj.
+  pose proof (strict_app_inv _ _ _ Hs) as HsE.
+  rewrite chain_snoc.
+  destruct E as [|e0 E'] eqn:EE.
+  - assert (j = 0)%nat by (simpl in Hj; lia). subst j.
+    change (chain []) with (@nil obs). cbn [app nth hd last]. unfold nobs.
+    change (ob_round obs0 =? 0) with true. cbv iota. simpl ob_w. lia.
+  - rewrite <- EE in *. assert (Hne : E <> []) by (rewrite EE; discriminate). clear EE e0 E'.
+    assert (Hlen : length (chain E) = length E) by (unfold chain; apply chain_from_length).
+    rewrite hd_app_ne by exact Hne.
+    destruct (Nat.eq_dec j (length E)) as [->|Hnj].
+    + rewrite app_nth2 by lia. rewrite app_nth2 by lia. rewrite Hlen, Nat.sub_diag. simpl nth.
+      unfold nobs. simpl ob_w. rewrite chain_last_round.
+      pose proof (strict_last_pos E HsE Hne) as Hpos.
+      replace (last_round E =? 0) with false by (symmetry; apply Z.eqb_neq; lia).
+      rewrite chain_last by exact Hne.
+      rewrite (IH HsE (length E - 1)%nat) by (destruct E; [congruence | simpl; lia]).
+      assert (Hlr : u_round (nth (length E - 1) E u0) = last_round E).
+      { unfold last_round. rewrite last_nth. reflexivity. }
+      lia.
+    + rewrite app_nth1 by lia. rewrite app_nth1 by lia. apply IH; [exact HsE | lia].
+Qed.
+
+(** ================================================================== layer 3: binary search *)
+Definition rdx (L : list obs) (i : Z) : Z := ob_round (nth (Z.to_nat (i - 1)) L obs0).
+
+(** [si] is next to where [x] would be inside the searched segment lo0..hi0 *)
+Definition adj (L : list obs) (x lo0 hi0 si : Z) : Prop :=
+  lo0 <= si <= hi0 /\
+  ((rdx L si < x /\ (si = hi0 \/ x < rdx L (si + 1))) \/
+   (x < rdx L si /\ (si = lo0 \/ rdx L (si - 1) < x))).
+
+Lemma bs_loop_spec L x lo0 hi0 : 1 <= lo0 -> hi0 <= vlen L ->
+  (forall i j, lo0 <= i -> i < j -> j <= hi0 -> rdx L i < rdx L j) ->
+  forall fuel lo hi si,
+    hi - lo + 1 <= Z.of_nat fuel -> lo0 <= lo -> hi <= hi0 -> lo <= hi + 1 ->
+    (forall i, lo0 <= i < lo -> rdx L i < x) ->
+    (forall i, hi < i <= hi0 -> x < rdx L i) ->
+    (hi < lo -> adj L x lo0 hi0 si) ->
+    exists po idx, bs_loop fuel L x lo hi si = Ok (po, idx) /\
+      ((po = nth (Z.to_nat (idx - 1)) L obs0 /\ rdx L idx = x /\ lo0 <= idx <= hi0) \/
+       (po = obs0 /\ adj L x lo0 hi0 idx)).
+Proof.
+  intros Hlo0 Hhi0 Hmono. induction fuel as [|fuel IH]; intros lo hi si Hf Hlo Hhi Hlh Hbelow Habove Hsi.
+  - simpl. replace (lo <=? hi) with false by (symmetry; apply Z.leb_gt; lia).
+    exists obs0, si. split; [reflexivity|]. right. split; [reflexivity | apply Hsi; lia].
+  - simpl bs_loop. destruct (lo <=? hi) eqn:Elh.
+    2:{ apply Z.leb_gt in Elh. exists obs0, si. split; [reflexivity|]. right. split; [reflexivity | apply Hsi; lia]. }
+    apply Z.leb_le in Elh.
+    assert (Hm : lo <= (lo + hi) / 2 <= hi).
+    { split; [apply Z.div_le_lower_bound; lia | apply Z.div_le_upper_bound; lia]. }
+    set (m := (lo + hi) / 2) in *. clearbody m.
+    rewrite vget_in by lia. cbn [bind]. fold (rdx L m).
+    destruct (rdx L m =? x) eqn:Eeq.
+    + apply Z.eqb_eq in Eeq. exists (nth (Z.to_nat (m - 1)) L obs0), m. split; [reflexivity|].
+      left. repeat split; try assumption; lia.
+    + apply Z.eqb_neq in Eeq. destruct (rdx L m <? x) eqn:Elt.
+      * apply Z.ltb_lt in Elt. apply IH; try lia.
+        -- intros i Hi. destruct (Z_lt_ge_dec i lo) as [H1|H1]; [apply Hbelow; lia|].
+           destruct (Z.eq_dec i m) as [->|Hne]; [exact Elt|].
+           pose proof (Hmono i m). lia.
+        -- intros i Hi. apply Habove. lia.
+        -- intros Hex. assert (m = hi) by lia. subst m. split; [lia|]. left. split; [exact Elt|].
+           destruct (Z.eq_dec hi hi0) as [->|Hne]; [left; reflexivity | right; apply Habove; lia].
+      * apply Z.ltb_ge in Elt. unfold sub_chk.
+        replace (m <? 1) with false by (symmetry; apply Z.ltb_ge; lia). cbn [bind].
+        apply IH; try lia.
+        -- intros i Hi. apply Hbelow. lia.
+        -- intros i Hi. destruct (Z_gt_le_dec i hi) as [H1|H1]; [apply Habove; lia|].
+           destruct (Z.eq_dec i m) as [->|Hne]; [lia|].
+           pose proof (Hmono m i). lia.
+        -- intros Hex. assert (m = lo) by lia. subst m. split; [lia|]. right. split; [lia|].
+           destruct (Z.eq_dec lo lo0) as [->|Hne]; [left; reflexivity | right; apply Hbelow; lia].
+Qed.
+
+(** rounds strictly increase along the list of recorded observations *)
+Definition sorted_obs (l : list obs) : Prop :=
+  forall i j, (i < j)%nat -> (j < length l)%nat -> ob_round (nth i l obs0) < ob_round (nth j l obs0).
+
+(** round of observation number m (1-based) *)
+Definition rnd (l : list obs) (m : Z) : Z := ob_round (nth (Z.to_nat (m - 1)) l obs0).
+
+Lemma rnd_mono l m1 m2 : sorted_obs l -> 1 <= m1 -> m1 < m2 -> m2 <= vlen l -> rnd l m1 < rnd l m2.
+Proof. intros Hs H1 H2 H3. unfold rnd. apply Hs; unfold vlen in *; lia. Qed.
+
+Section Laid.
+Variable l : list obs.
+Hypothesis Hk : 0 < vlen l.
+Let rg := layout N l.
+Let k := vlen l.
+Let c := rg_cur rg.
+Let n := vlen (rg_obs rg).
+
+Lemma laid_n : n = Z.min k N.
+Proof. apply layout_len. Qed.
+
+Lemma laid_c : 1 <= c <= n.
+Proof. unfold c, n, rg. rewrite layout_len. apply layout_cur_range. exact Hk. Qed.
+
+Lemma laid_c_small : k <= N -> c = k.
+Proof. intros H. unfold c, rg. rewrite layout_cur. replace (vlen l <=? N) with true by (symmetry; apply Z.leb_le; exact H). reflexivity. Qed.
+
+Lemma laid_num_range i : 1 <= i <= n -> k - n < num k c i <= k.
+Proof.
+  intros Hi. pose proof laid_n. pose proof laid_c. unfold num.
+  destruct (Z_le_gt_dec k N) as [Hs|Hs].
+  - pose proof (laid_c_small Hs). replace (i <=? c) with true by (symmetry; apply Z.leb_le; lia). lia.
+  - destruct (i <=? c) eqn:E; [apply Z.leb_le in E | apply Z.leb_gt in E]; lia.
+Qed.
+
+Lemma laid_nth i : 1 <= i <= n ->
+  nth (Z.to_nat (i - 1)) (rg_obs rg) obs0 = nth (Z.to_nat (num k c i - 1)) l obs0.
+Proof.
+  intros Hi. pose proof (layout_get l i Hi) as H. rewrite vget_in in H by exact Hi. inversion H as [H']. exact H'.
+Qed.
+
+Lemma laid_rdx i : 1 <= i <= n -> rdx (rg_obs rg) i = rnd l (num k c i).
+Proof. intros Hi. unfold rdx, rnd. rewrite laid_nth by exact Hi. reflexivity. Qed.
+
+Lemma laid_last_round : rdx (rg_obs rg) c = ob_round (last l obs0).
+Proof.
+  pose proof laid_c. rewrite laid_rdx by lia. unfold rnd, num. rewrite Z.leb_refl. rewrite last_nth.
+  f_equal. f_equal. unfold k, vlen in *. lia.
+Qed.
+
+(** adjacency of [x] to the observation stored at ring index [idx], in terms of observation numbers *)
+Definition adj_ring (x idx : Z) : Prop :=
+  let m := num k c idx in
+  (rnd l m < x /\ x < rnd l (m + 1) /\ m + 1 <= k /\
+   1 <= idx mod N + 1 <= n /\ num k c (idx mod N + 1) = m + 1) \/
+  (rnd l (m - 1) < x /\ x < rnd l m /\ k - n < m - 1 /\
+   idx <> 1 /\ 1 <= idx - 1 <= n /\ num k c (idx - 1) = m - 1).
+
+(** C13_search *)
+Lemma bsearch_spec x : sorted_obs l ->
+  rnd l (Z.max 0 (k - N) + 1) <= x -> x < ob_round (last l obs0) ->
+  exists po idx, bsearch N rg x = Ok (po, idx) /\ 1 <= idx <= n /\
+    ((po = nth (Z.to_nat (num k c idx - 1)) l obs0 /\ ob_round po = x) \/ (po = obs0 /\ adj_ring x idx)).
+Proof.
+  intros Hs Hold Hnew.
+  pose proof laid_n as Hn. pose proof laid_c as Hc. fold rg in Hn.
+  assert (HkN : Z.max 0 (k - N) + 1 = k - n + 1) by lia.
+  rewrite HkN in Hold.
+  assert (Hlastr : rnd l k = ob_round (last l obs0)).
+  { unfold rnd. rewrite last_nth. f_equal. f_equal. unfold k, vlen in *. lia. }
+  unfold bsearch. fold n. fold c.
+  rewrite vget_in by (fold n; lia). cbn [bind]. fold (rdx (rg_obs rg) 1).
+  rewrite laid_rdx by lia.
+  assert (Hmono : forall m1 m2, 1 <= m1 -> m1 < m2 -> m2 <= k -> rnd l m1 < rnd l m2).
+  { intros. apply rnd_mono; assumption. }
+  destruct (rnd l (num k c 1) <=? x) eqn:E1.
+  - (* the segment 1 .. c-1 *)
+    apply Z.leb_le in E1. unfold sub_chk. replace (c <? 1) with false by (symmetry; apply Z.ltb_ge; lia).
+    cbn [bind].
+    assert (Hnum1 : num k c 1 = k - c + 1) by (unfold num; replace (1 <=? c) with true by (symmetry; apply Z.leb_le; lia); lia).
+    assert (Hc2 : 2 <= c).
+    { destruct (Z.eq_dec c 1) as [Hc1|]; [|lia]. rewrite Hnum1, Hc1 in E1.
+      replace (k - 1 + 1) with k in E1 by lia. lia. }
+    assert (Hnumlo : forall i, 1 <= i <= c -> num k c i = k - c + i).
+    { intros i Hi. unfold num. replace (i <=? c) with true by (symmetry; apply Z.leb_le; lia). reflexivity. }
+    destruct (bs_loop_spec (rg_obs rg) x 1 (c - 1)) with (fuel := Z.to_nat N) (lo := 1) (hi := c - 1) (si := 1)
+      as (po & idx & Hbs & Hres); try lia.
+    + intros i j Hi Hij Hj. rewrite !laid_rdx by lia. rewrite !Hnumlo by lia. apply Hmono; lia.
+    + rewrite Hbs. exists po, idx. split; [reflexivity|].
+      destruct Hres as [(Hpo & Hx & Hr) | (Hpo & (Hr & Hadj))].
+      * split; [lia|]. left. rewrite Hpo. split; [apply laid_nth; lia | exact Hx].
+      * split; [lia|]. right. split; [exact Hpo|]. unfold adj_ring.
+        destruct Hadj as [(Hlt & Hnext) | (Hgt & Hprev)].
+        -- left. rewrite laid_rdx in Hlt by lia. rewrite Z.mod_small by lia.
+           rewrite (Hnumlo idx) in * by lia. rewrite (Hnumlo (idx + 1)) by lia.
+           repeat split; try lia.
+           destruct Hnext as [->|Hnext].
+           ++ replace (k - c + (c - 1) + 1) with k by lia. lia.
+           ++ rewrite laid_rdx in Hnext by lia. rewrite Hnumlo in Hnext by lia.
+              replace (k - c + idx + 1) with (k - c + (idx + 1)) by lia. exact Hnext.
+        -- right. rewrite laid_rdx in Hgt by lia. rewrite (Hnumlo idx) in * by lia.
+           assert (Hne : idx <> 1).
+           { intros ->. rewrite Hnum1 in E1. replace (k - c + 1) with (k - c + 1) in Hgt by lia. lia. }
+           destruct Hprev as [->|Hprev]; [congruence|].
+           rewrite laid_rdx in Hprev by lia. rewrite Hnumlo in Hprev by lia.
+           rewrite (Hnumlo (idx - 1)) by lia.
+           replace (k - c + idx - 1) with (k - c + (idx - 1)) by lia.
+           repeat split; try lia.
+  - (* the segment c+1 .. N of a wrapped ring *)
+    apply Z.leb_gt in E1.
+    assert (Hnum1 : num k c 1 = k - c + 1) by (unfold num; replace (1 <=? c) with true by (symmetry; apply Z.leb_le; lia); lia).
+    rewrite Hnum1 in E1.
+    assert (Hwrap : c < n /\ n = N /\ N < k).
+    { destruct (Z_le_gt_dec k N) as [Hsm|Hbig].
+      - pose proof (laid_c_small Hsm) as Hck. exfalso. rewrite Hck in E1.
+        replace (k - n + 1) with (k - k + 1) in Hold by lia. lia.
+      - destruct (Z.eq_dec c n) as [Hcn|]; [|lia]. exfalso. rewrite Hcn in E1. lia. }
+    destruct Hwrap as (Hcn & HnN & HNk).
+    assert (Hnumhi : forall i, c < i <= N -> num k c i = k - c - N + i).
+    { intros i Hi. unfold num. replace (i <=? c) with false by (symmetry; apply Z.leb_gt; lia). reflexivity. }
+    cbn [bind].
+    destruct (bs_loop_spec (rg_obs rg) x (c + 1) N) with (fuel := Z.to_nat N) (lo := c + 1) (hi := n) (si := 1)
+      as (po & idx & Hbs & Hres); try lia.
+    + intros i j Hi Hij Hj. rewrite !laid_rdx by lia. rewrite !Hnumhi by lia. apply Hmono; lia.
+    + fold n in Hbs. rewrite Hbs. exists po, idx. split; [reflexivity|].
+      destruct Hres as [(Hpo & Hx & Hr) | (Hpo & (Hr & Hadj))].
+      * split; [lia|]. left. rewrite Hpo. split; [apply laid_nth; lia | exact Hx].
+      * split; [lia|]. right. split; [exact Hpo|]. unfold adj_ring.
+        destruct Hadj as [(Hlt & Hnext) | (Hgt & Hprev)].
+        -- left. rewrite laid_rdx in Hlt by lia. rewrite (Hnumhi idx) in * by lia.
+           destruct (Z.eq_dec idx N) as [HiN|HiN].
+           ++ rewrite HiN. rewrite Z_mod_same_full. replace (0 + 1) with 1 by lia. rewrite Hnum1.
+              rewrite HiN in Hlt. replace (k - c - N + N + 1) with (k - c + 1) by lia.
+              repeat split; try lia.
+           ++ destruct Hnext as [Hnext|Hnext]; [congruence|].
+              rewrite laid_rdx in Hnext by lia. rewrite Hnumhi in Hnext by lia.
+              rewrite Z.mod_small by lia. rewrite (Hnumhi (idx + 1)) by lia.
+              replace (k - c - N + idx + 1) with (k - c - N + (idx + 1)) by lia.
+              repeat split; try lia.
+        -- right. rewrite laid_rdx in Hgt by lia. rewrite (Hnumhi idx) in * by lia.
+           destruct Hprev as [Hprev|Hprev].
+           { exfalso. rewrite Hprev in Hgt. replace (k - c - N + (c + 1)) with (k - n + 1) in Hgt by lia. lia. }
+           assert (Hne : idx <> c + 1).
+           { intros ->. replace (k - c - N + (c + 1)) with (k - n + 1) in Hgt by lia. lia. }
+           rewrite laid_rdx in Hprev by lia. rewrite Hnumhi in Hprev by lia.
+           rewrite (Hnumhi (idx - 1)) by lia.
+           replace (k - c - N + idx - 1) with (k - c - N + (idx - 1)) by lia.
+           repeat split; try lia.
+Qed.
+
+End Laid.
+
+(** ================================================================== layer 4: lookups are exact *)
+Definition acc_obsE (E : list upd) (c : upd) (x : Z) : obs :=
+  mkO (accE u_r1 E c x) (accE u_r2 E c x) (1 + x - u_round (hd u0 E)) x (accE u_S E c x).
+
+Lemma chain_nth_closed E c j : strict_from 0 E -> Forall pos_upd E -> (j < length E)%nat ->
+  nth j (chain E) obs0 = acc_obsE E c (u_round (nth j E u0)).
+Proof.
+  intros Hs Hp Hj.
+  pose proof (chain_closed _ _ sel_a1 E c Hs Hp j Hj) as H1.
+  pose proof (chain_closed _ _ sel_a2 E c Hs Hp j Hj) as H2.
+  pose proof (chain_closed _ _ sel_lp E c Hs Hp j Hj) as H3.
+  pose proof (chain_weight E Hs j Hj) as H4.
+  pose proof (chain_round E j Hj) as H5.
+  unfold acc_obsE. destruct (nth j (chain E) obs0); simpl in *. subst. reflexivity.
+Qed.
+
+Lemma chain_sorted E : strict_from 0 E -> sorted_obs (chain E).
+Proof.
+  intros Hs i j Hij Hj. unfold chain in Hj. rewrite chain_from_length in Hj.
+  rewrite !chain_round by lia. apply (strict_mono E 0); assumption.
+Qed.
+
+Lemma start_at E : forall c t j, Forall pos_upd E -> (j < length E)%nat ->
+  (forall i, (i < j)%nat -> u_round (nth i E u0) < t) -> t <= u_round (nth j E u0) ->
+  start E c t = nth j E u0.
+Proof.
+  induction E as [|u E IH]; intros c t j Hp Hj Hbelow Ht; [simpl in Hj; lia|].
+  inversion Hp as [|? ? Hu Hp']; subst. simpl start. rewrite (pos_not_zero u Hu). simpl negb. simpl andb.
+  destruct j as [|j].
+  - simpl in Ht. replace (t <=? u_round u) with true by (symmetry; apply Z.leb_le; lia). reflexivity.
+  - pose proof (Hbelow 0%nat ltac:(lia)) as H0. simpl in H0.
+    replace (t <=? u_round u) with false by (symmetry; apply Z.leb_gt; lia).
+    simpl nth. apply IH; [exact Hp' | simpl in Hj; lia | | exact Ht].
+    intros i Hi. apply (Hbelow (S i)). lia.
+Qed.
+
+Lemma hd_le_nth E j : strict_from 0 E -> (j < length E)%nat -> u_round (hd u0 E) <= u_round (nth j E u0).
+Proof.
+  intros Hs Hj. rewrite hd_nth. destruct j; [lia|].
+  pose proof (strict_mono E 0 0%nat (S j) Hs). lia.
+Qed.
+
+(** beyond the newest observation the accumulators grow by the present reserves *)
+Lemma accE_beyond g E c x : strict_from 0 E -> E <> [] -> last_round E <= x ->
+  accE g E c x = accE g E c (last_round E) + (x - last_round E) * g c.
+Proof.
+  intros Hs Hne Hx. unfold accE.
+  assert (H1 : u_round (hd u0 E) <= last_round E).
+  { unfold last_round. rewrite last_nth. fold u0. apply hd_le_nth; [exact Hs|]. destruct E; [congruence | simpl; lia]. }
+  rewrite (sumr_split _ (u_round (hd u0 E)) (last_round E) x) by lia.
+  rewrite (sumr_const _ (last_round E) x (g c)); [lia | lia |].
+  intros t Ht. rewrite start_beyond; [reflexivity|].
+  intros v Hv. pose proof (in_le_last E 0 v Hs Hv). lia.
+Qed.
+
+(** between two consecutive observations the integrand is constant *)
+Lemma accE_step g E c j y : strict_from 0 E -> Forall pos_upd E -> (S j < length E)%nat ->
+  u_round (nth j E u0) <= y <= u_round (nth (S j) E u0) ->
+  accE g E c y = accE g E c (u_round (nth j E u0)) + (y - u_round (nth j E u0)) * g (nth (S j) E u0).
+Proof.
+  intros Hs Hp Hj Hy. unfold accE.
+  pose proof (hd_le_nth E j Hs ltac:(lia)) as H1.
+  rewrite (sumr_split _ (u_round (hd u0 E)) (u_round (nth j E u0)) y) by lia.
+  rewrite (sumr_const _ (u_round (nth j E u0)) y (g (nth (S j) E u0))); [lia | lia |].
+  intros t Ht. rewrite (start_at E c t (S j)); [reflexivity | exact Hp | exact Hj | | lia].
+  intros i Hi. destruct (Nat.eq_dec i j) as [->|Hne]; [lia|].
+  pose proof (strict_mono E 0 i j Hs). lia.
+Qed.
+
+Lemma interp_exact A v a x b : a < x < b ->
+  ((b - x) * A + (x - a) * (A + (b - a) * v)) / (b - x + (x - a)) = A + (x - a) * v.
+Proof.
+  intros H. replace ((b - x) * A + (x - a) * (A + (b - a) * v)) with ((A + (x - a) * v) * (b - a)) by ring.
+  replace (b - x + (x - a)) with (b - a) by ring. apply Z.div_mul. lia.
+Qed.
+
+Lemma interp_arith E c j x : strict_from 0 E -> Forall pos_upd E -> (S j < length E)%nat ->
+  u_round (nth j E u0) < x < u_round (nth (S j) E u0) ->
+  let lf := nth j (chain E) obs0 in
+  let rt := nth (S j) (chain E) obs0 in
+  (do lw <- sub_chk (ob_round rt) x;
+   do rw <- sub_chk x (ob_round lf);
+   let ws := lw + rw in
+   do a1 <- div_chk (lw * ob_a1 lf + rw * ob_a1 rt) ws;
+   do a2 <- div_chk (lw * ob_a2 lf + rw * ob_a2 rt) ws;
+   do lp <- div_chk (lw * ob_lp lf + rw * ob_lp rt) ws;
+   do w <- sub_chk (ob_w lf + x) (ob_round lf);
+   Ok (mkO a1 a2 w x lp)) = Ok (acc_obsE E c x).
+Proof.
+  intros Hs Hp Hj Hx lf rt. subst lf rt.
+  rewrite (chain_nth_closed E c j) by (try assumption; lia).
+  rewrite (chain_nth_closed E c (S j)) by (try assumption; lia).
+  set (a := u_round (nth j E u0)) in *. set (b := u_round (nth (S j) E u0)) in *.
+  unfold acc_obsE at 1 2 3 4 5 6 7 8 9 10 11. cbn [ob_a1 ob_a2 ob_w ob_round ob_lp].
+  unfold sub_chk at 1. replace (b <? x) with false by (symmetry; apply Z.ltb_ge; lia). cbn [bind].
+  unfold sub_chk at 1. replace (x <? a) with false by (symmetry; apply Z.ltb_ge; lia). cbn [bind].
+  cbv zeta.
+  assert (Hws : (b - x + (x - a) =? 0) = false) by (apply Z.eqb_neq; lia).
+  unfold div_chk. rewrite Hws. cbn [bind].
+  pose proof (hd_le_nth E j Hs ltac:(lia)) as H1. fold a in H1.
+  unfold sub_chk. replace (1 + a - u_round (hd u0 E) + x <? a) with false by (symmetry; apply Z.ltb_ge; lia).
+  cbn [bind]. unfold acc_obsE. f_equal.
+  assert (Hstep : forall g y, a <= y <= b -> accE g E c y = accE g E c a + (y - a) * g (nth (S j) E u0)).
+  { intros g y Hy. apply accE_step; assumption. }
+  f_equal.
+  - rewrite (Hstep u_r1 b) by lia. rewrite (Hstep u_r1 x) by lia. apply interp_exact. lia.
+  - rewrite (Hstep u_r2 b) by lia. rewrite (Hstep u_r2 x) by lia. apply interp_exact. lia.
+  - lia.
+  - rewrite (Hstep u_S b) by lia. rewrite (Hstep u_S x) by lia. apply interp_exact. lia.
+Qed.
+
+Definition oldest_round (E : list upd) : Z :=
+  u_round (nth (Z.to_nat (Z.max 0 (Z.of_nat (length E) - N))) E u0).
+
+Lemma oldest_pos E : strict_from 0 E -> E <> [] -> 0 < oldest_round E.
+Proof.
+  intros Hs Hne. unfold oldest_round. apply (strict_nth E 0); [exact Hs|].
+  destruct E; [congruence | simpl length; lia].
+Qed.
+
+Lemma oldest_le_last E : strict_from 0 E -> E <> [] -> oldest_round E <= last_round E.
+Proof.
+  intros Hs Hne. unfold oldest_round. apply (nth_le_last E 0); [exact Hs|].
+  destruct E; [congruence | simpl length; lia].
+Qed.
+
+Lemma get_oldest_chain E : E <> [] ->
+  get_oldest N (layout N (chain E)) = Ok (nth (Z.to_nat (Z.max 0 (Z.of_nat (length E) - N))) (chain E) obs0).
+Proof.
+  intros Hne. rewrite layout_oldest; [rewrite chain_length; reflexivity|].
+  rewrite chain_length. destruct E; [congruence | simpl length; lia].
+Qed.
+
+(** C13_lookup (on the list of recording calls) *)
+Lemma lookup_exact E ev x :
+  E <> [] -> strict_from 0 E -> Forall pos_upd E -> last_round E <= e_now ev ->
+  oldest_round E <= x -> x <= e_now ev ->
+  get_price_observation N (layout N (chain E)) ev x = Ok (acc_obsE E (cur_upd ev) x).
+Proof.
+  intros Hne Hs Hp Hnow Hold Hx.
+  set (c := cur_upd ev).
+  assert (Hlen : (0 < length E)%nat) by (destruct E; [congruence | simpl; lia]).
+  assert (Hk : 0 < vlen (chain E)) by (rewrite chain_length; lia).
+  pose proof (strict_last_pos E Hs Hne) as Hlpos.
+  assert (Hlastc : last (chain E) obs0 = acc_obsE E c (last_round E)).
+  { rewrite chain_last by exact Hne. rewrite (chain_nth_closed E c) by (try assumption; lia).
+    f_equal. unfold last_round. rewrite last_nth. reflexivity. }
+  unfold get_price_observation. rewrite layout_len.
+  replace (Z.min (vlen (chain E)) N =? 0) with false by (symmetry; apply Z.eqb_neq; lia).
+  simpl negb. cbv iota. rewrite layout_last by exact Hk. cbn [bind]. rewrite chain_last_round.
+  destruct (last_round E =? x) eqn:Eeq.
+  { apply Z.eqb_eq in Eeq. rewrite Hlastc, Eeq. reflexivity. }
+  apply Z.eqb_neq in Eeq.
+  destruct (last_round E <? x) eqn:Elt.
+  { (* extrapolation with the present reserves *)
+    apply Z.ltb_lt in Elt. replace (x <=? e_now ev) with true by (symmetry; apply Z.leb_le; lia).
+    unfold compute_new. rewrite chain_last_round.
+    replace (last_round E =? 0) with false by (symmetry; apply Z.eqb_neq; lia).
+    unfold sub_chk. replace (x <? last_round E) with false by (symmetry; apply Z.ltb_ge; lia).
+    cbn [bind]. rewrite Hlastc. unfold acc_obsE. cbn [ob_a1 ob_a2 ob_w ob_round ob_lp]. f_equal.
+    rewrite (accE_beyond u_r1 E c x), (accE_beyond u_r2 E c x), (accE_beyond u_S E c x) by (try assumption; lia).
+    f_equal; try (subst c; reflexivity); lia. }
+  apply Z.ltb_ge in Elt. assert (Hxl : x < last_round E) by lia.
+  (* binary search *)
+  pose proof (bsearch_spec (chain E) Hk x (chain_sorted E Hs)) as Hbs.
+  assert (Hrnd : forall m, 1 <= m <= Z.of_nat (length E) -> rnd (chain E) m = u_round (nth (Z.to_nat (m - 1)) E u0)).
+  { intros m Hm. unfold rnd. apply chain_round. lia. }
+  destruct Hbs as (po & idx & Hb & Hidx & Hres).
+  { rewrite Hrnd by (rewrite chain_length; lia). rewrite chain_length.
+    replace (Z.max 0 (Z.of_nat (length E) - N) + 1 - 1) with (Z.max 0 (Z.of_nat (length E) - N)) by lia. exact Hold. }
+  { rewrite chain_last_round. exact Hxl. }
+  rewrite Hb. cbn [bind]. cbv beta iota.
+  pose proof (laid_num_range (chain E) Hk idx Hidx) as Hnr. rewrite layout_len in Hnr, Hidx.
+  rewrite chain_length in Hnr, Hidx, Hres.
+  set (m := num (Z.of_nat (length E)) (rg_cur (layout N (chain E))) idx) in *.
+  destruct Hres as [(Hpo & Hround) | (Hpo & Hadj)].
+  - (* found exactly *)
+    replace (0 <? ob_round po) with true
+      by (symmetry; apply Z.ltb_lt; pose proof (oldest_pos E Hs Hne); lia).
+    rewrite Hpo in *. rewrite (chain_nth_closed E c) in * by (try assumption; lia).
+    f_equal. f_equal. unfold acc_obsE in Hround. simpl in Hround. exact Hround.
+  - rewrite Hpo. change (0 <? ob_round obs0) with false. cbv iota.
+    unfold interpolate. rewrite vget_in by (rewrite layout_len, chain_length; lia). cbn [bind].
+    rewrite (laid_nth (chain E) idx) by (rewrite layout_len, chain_length; lia).
+    rewrite chain_length. fold m.
+    unfold adj_ring in Hadj. rewrite !chain_length in Hadj. rewrite layout_len in Hadj. rewrite chain_length in Hadj.
+    fold m in Hadj. cbv zeta in Hadj.
+    assert (Hfr : ob_round (nth (Z.to_nat (m - 1)) (chain E) obs0) = rnd (chain E) m) by reflexivity.
+    rewrite Hfr.
+    destruct Hadj as [(Hlt & Hgt & Hm1 & Hi1 & Hn1) | (Hlt & Hgt & Hm1 & Hne1 & Hi1 & Hn1)].
+    + replace (rnd (chain E) m <? x) with true by (symmetry; apply Z.ltb_lt; lia).
+      rewrite vget_in by (rewrite layout_len, chain_length; lia). cbn [bind].
+      rewrite (laid_nth (chain E)) by (rewrite layout_len, chain_length; lia).
+      rewrite chain_length. rewrite Hn1. cbv beta iota.
+      replace (Z.to_nat (m + 1 - 1)) with (S (Z.to_nat (m - 1))) by lia.
+      apply (interp_arith E c (Z.to_nat (m - 1)) x); try assumption; [lia|].
+      rewrite !Hrnd in * by lia. replace (Z.to_nat (m + 1 - 1)) with (S (Z.to_nat (m - 1))) in Hgt by lia. lia.
+    + replace (rnd (chain E) m <? x) with false by (symmetry; apply Z.ltb_ge; lia).
+      replace (idx =? 1) with false by (symmetry; apply Z.eqb_neq; exact Hne1).
+      rewrite vget_in by (rewrite layout_len, chain_length; lia). cbn [bind].
+      rewrite (laid_nth (chain E)) by (rewrite layout_len, chain_length; lia).
+      rewrite chain_length. rewrite Hn1. cbv beta iota.
+      replace (Z.to_nat (m - 1)) with (S (Z.to_nat (m - 1 - 1))) by lia.
+      apply (interp_arith E c (Z.to_nat (m - 1 - 1)) x); try assumption; [lia|].
+      rewrite !Hrnd in * by lia. replace (Z.to_nat (m - 1)) with (S (Z.to_nat (m - 1 - 1))) in Hgt by lia. lia.
+Qed.
+
+(** ================================================================== layer 5: queries *)
+Lemma start_pos E : forall c t, Forall pos_upd E -> pos_upd c -> pos_upd (start E c t).
+Proof.
+  induction E as [|u E IH]; intros c t Hp Hc; [exact Hc|]. inversion Hp; subst. simpl.
+  destruct (negb (u_zero u) && (t <=? u_round u)); [assumption | apply IH; assumption].
+Qed.
+
+Lemma accE_diff g E c s e : u_round (hd u0 E) <= s -> s <= e ->
+  accE g E c e - accE g E c s = sumr (fun t => g (start E c t)) s e.
+Proof.
+  intros H1 H2. unfold accE. rewrite (sumr_split _ (u_round (hd u0 E)) s e) by lia. lia.
+Qed.
+
+Lemma accE_pos g E c x : (forall u, pos_upd u -> 1 <= g u) -> Forall pos_upd E -> pos_upd c -> E <> [] ->
+  u_round (hd u0 E) <= x -> 1 <= accE g E c x.
+Proof.
+  intros Hg Hp Hc Hne Hx. unfold accE.
+  assert (1 <= g (hd u0 E)).
+  { apply Hg. destruct E; [congruence|]. inversion Hp; assumption. }
+  assert (x - u_round (hd u0 E) <= sumr (fun t => g (start E c t)) (u_round (hd u0 E)) x).
+  { apply sumr_lower; [lia|]. intros t _. apply Hg. apply start_pos; assumption. }
+  lia.
+Qed.
+
+(** time-weighted average of component [g] of the start-of-round reserves over (s, e] *)
+Definition avgE (g : upd -> Z) (E : list upd) (c : upd) (s e : Z) : Z :=
+  sumr (fun t => g (start E c t)) s e / (e - s).
+
+Lemma avgE_pos g E c s e : (forall u, pos_upd u -> 1 <= g u) -> Forall pos_upd E -> pos_upd c -> s < e ->
+  1 <= avgE g E c s e.
+Proof.
+  intros Hg Hp Hc Hse. unfold avgE. apply Z.div_le_lower_bound; [lia|].
+  assert (e - s <= sumr (fun t => g (start E c t)) s e).
+  { apply sumr_lower; [lia|]. intros t _. apply Hg. apply start_pos; assumption. }
+  lia.
+Qed.
+
+Lemma g1_pos u : pos_upd u -> 1 <= u_r1 u. Proof. unfold pos_upd. tauto. Qed.
+Lemma g2_pos u : pos_upd u -> 1 <= u_r2 u. Proof. unfold pos_upd. tauto. Qed.
+Lemma gS_pos u : pos_upd u -> 1 <= u_S u. Proof. unfold pos_upd. tauto. Qed.
+
+Lemma hd_le_oldest E : strict_from 0 E -> E <> [] -> u_round (hd u0 E) <= oldest_round E.
+Proof.
+  intros Hs Hne. unfold oldest_round. apply hd_le_nth; [exact Hs|].
+  destruct E; [congruence | simpl length; lia].
+Qed.
+
+Lemma weighted_exact E c s e : E <> [] -> strict_from 0 E -> Forall pos_upd E -> pos_upd c ->
+  oldest_round E <= s -> s < e ->
+  weighted_amounts (acc_obsE E c s) (acc_obsE E c e)
+  = Ok (avgE u_r1 E c s e, avgE u_r2 E c s e, avgE u_S E c s e).
+Proof.
+  intros Hne Hs Hp Hc Hold Hse.
+  pose proof (hd_le_oldest E Hs Hne) as Hhd.
+  unfold weighted_amounts, acc_obsE. cbn [ob_a1 ob_a2 ob_w ob_round ob_lp].
+  unfold sub_chk at 1.
+  replace (1 + e - u_round (hd u0 E) <? 1 + s - u_round (hd u0 E)) with false by (symmetry; apply Z.ltb_ge; lia).
+  cbn [bind].
+  replace (1 + e - u_round (hd u0 E) - (1 + s - u_round (hd u0 E))) with (e - s) by lia.
+  replace (0 <? e - s) with true by (symmetry; apply Z.ltb_lt; lia).
+  assert (Hd : forall g, (forall u, pos_upd u -> 1 <= g u) ->
+               sub_chk (accE g E c e) (accE g E c s) = Ok (sumr (fun t => g (start E c t)) s e)).
+  { intros g Hg. pose proof (accE_diff g E c s e ltac:(lia) ltac:(lia)) as Hdf.
+    assert (0 <= sumr (fun t => g (start E c t)) s e).
+    { assert (e - s <= sumr (fun t => g (start E c t)) s e); [|lia].
+      apply sumr_lower; [lia|]. intros t _. apply Hg. apply start_pos; assumption. }
+    unfold sub_chk. replace (accE g E c e <? accE g E c s) with false by (symmetry; apply Z.ltb_ge; lia).
+    f_equal. lia. }
+  rewrite (Hd u_r1 g1_pos). cbn [bind]. rewrite (Hd u_r2 g2_pos). cbn [bind].
+  pose proof (accE_pos u_S E c s gS_pos Hp Hc Hne ltac:(lia)) as Hlp.
+  replace (0 <? accE u_S E c s) with true by (symmetry; apply Z.ltb_lt; lia).
+  rewrite (Hd u_S gS_pos). cbn [bind]. reflexivity.
+Qed.
+
+Lemma get_oldest_round E : E <> [] ->
+  exists o, get_oldest N (layout N (chain E)) = Ok o /\ ob_round o = oldest_round E.
+Proof.
+  intros Hne. rewrite get_oldest_chain by exact Hne. eexists. split; [reflexivity|].
+  unfold oldest_round. apply chain_round. destruct E; [congruence | simpl length; lia].
+Qed.
+
+(** C13_query, price variant *)
+Lemma safe_price_formula E ev s e tok amt :
+  E <> [] -> strict_from 0 E -> Forall pos_upd E -> last_round E <= e_now ev -> pos_upd (cur_upd ev) ->
+  oldest_round E <= s -> s < e -> e <= e_now ev ->
+  get_safe_price N (layout N (chain E)) ev s e tok amt =
+    let c := cur_upd ev in
+    if tok =? T1 then Ok (T2, amt * avgE u_r2 E c s e / avgE u_r1 E c s e)
+    else if tok =? T2 then Ok (T1, amt * avgE u_r1 E c s e / avgE u_r2 E c s e)
+    else Err EGuard.
+Proof.
+  intros Hne Hs Hp Hnow Hc Hold Hse He. cbv zeta.
+  unfold get_safe_price. replace (s <? e) with true by (symmetry; apply Z.ltb_lt; lia).
+  destruct (get_oldest_round E Hne) as (o & Ho & Hor). rewrite Ho. cbn [bind]. rewrite Hor.
+  replace (oldest_round E <=? s) with true by (symmetry; apply Z.leb_le; lia).
+  rewrite (lookup_exact E ev s) by (try assumption; lia). cbn [bind].
+  rewrite (lookup_exact E ev e) by (try assumption; lia). cbn [bind].
+  rewrite weighted_exact by assumption. cbn [bind]. cbv beta iota.
+  pose proof (avgE_pos u_r1 E (cur_upd ev) s e g1_pos Hp Hc Hse) as H1.
+  pose proof (avgE_pos u_r2 E (cur_upd ev) s e g2_pos Hp Hc Hse) as H2.
+  unfold div_chk.
+  replace (avgE u_r1 E (cur_upd ev) s e =? 0) with false by (symmetry; apply Z.eqb_neq; lia).
+  replace (avgE u_r2 E (cur_upd ev) s e =? 0) with false by (symmetry; apply Z.eqb_neq; lia).
+  destruct (tok =? T1); [reflexivity|]. destruct (tok =? T2); reflexivity.
+Qed.
+
+(** C13_query, LP variant (the lp_supply fallback is unreachable: the averaged supply is >= 1) *)
+Lemma lp_safe_price_formula E ev s e liq :
+  E <> [] -> strict_from 0 E -> Forall pos_upd E -> last_round E <= e_now ev -> pos_upd (cur_upd ev) ->
+  oldest_round E <= s -> s < e -> e <= e_now ev ->
+  get_lp_safe_price N (layout N (chain E)) ev s e liq =
+    let c := cur_upd ev in
+    Ok (liq * avgE u_r1 E c s e / avgE u_S E c s e, liq * avgE u_r2 E c s e / avgE u_S E c s e).
+Proof.
+  intros Hne Hs Hp Hnow Hc Hold Hse He. cbv zeta.
+  unfold get_lp_safe_price. replace (s <? e) with true by (symmetry; apply Z.ltb_lt; lia).
+  destruct (get_oldest_round E Hne) as (o & Ho & Hor). rewrite Ho. cbn [bind]. rewrite Hor.
+  replace (oldest_round E <=? s) with true by (symmetry; apply Z.leb_le; lia).
+  rewrite (lookup_exact E ev s) by (try assumption; lia). cbn [bind].
+  rewrite (lookup_exact E ev e) by (try assumption; lia). cbn [bind].
+  rewrite weighted_exact by assumption. cbn [bind]. cbv beta iota.
+  pose proof (avgE_pos u_S E (cur_upd ev) s e gS_pos Hp Hc Hse) as H3.
+  replace (avgE u_S E (cur_upd ev) s e =? 0) with false by (symmetry; apply Z.eqb_neq; lia).
+  simpl andb. cbv iota. unfold div_chk.
+  replace (avgE u_S E (cur_upd ev) s e =? 0) with false by (symmetry; apply Z.eqb_neq; lia).
+  cbn [bind]. reflexivity.
+Qed.
+
+(** ------------------------------------------------------------------ rejections (any ring state) *)
+Lemma reject_order rg ev s e tok amt liq : e <= s ->
+  is_ok (get_safe_price N rg ev s e tok amt) = false /\ is_ok (get_lp_safe_price N rg ev s e liq) = false.
+Proof.
+  intros H. unfold get_safe_price, get_lp_safe_price.
+  replace (s <? e) with false by (symmetry; apply Z.ltb_ge; lia). split; reflexivity.
+Qed.
+
+Lemma reject_empty rg ev s e tok amt liq x : vlen (rg_obs rg) = 0 ->
+  is_ok (get_safe_price N rg ev s e tok amt) = false /\ is_ok (get_lp_safe_price N rg ev s e liq) = false /\
+  is_ok (view_observation N rg ev x) = false.
+Proof.
+  intros H. unfold get_safe_price, get_lp_safe_price, view_observation, get_oldest. rewrite H. simpl.
+  destruct (s <? e); repeat split; reflexivity.
+Qed.
+
+Lemma reject_too_old rg ev s e tok amt liq o : get_oldest N rg = Ok o -> s < ob_round o ->
+  is_ok (get_safe_price N rg ev s e tok amt) = false /\ is_ok (get_lp_safe_price N rg ev s e liq) = false /\
+  is_ok (view_observation N rg ev s) = false.
+Proof.
+  intros Ho H. unfold get_safe_price, get_lp_safe_price, view_observation. rewrite Ho. cbn [bind].
+  replace (ob_round o <=? s) with false by (symmetry; apply Z.leb_gt; lia).
+  destruct (s <? e); repeat split; reflexivity.
+Qed.
+
+Lemma lookup_future rg ev x :
+  (forall last, vget (rg_obs rg) (rg_cur rg) = Ok last -> ob_round last <= e_now ev) ->
+  e_now ev < x -> is_ok (get_price_observation N rg ev x) = false.
+Proof.
+  intros Hlast Hx. unfold get_price_observation.
+  destruct (negb (vlen (rg_obs rg) =? 0)); [|reflexivity].
+  destruct (vget (rg_obs rg) (rg_cur rg)) as [last|] eqn:El; [|reflexivity]. cbn [bind].
+  specialize (Hlast last eq_refl).
+  replace (ob_round last =? x) with false by (symmetry; apply Z.eqb_neq; lia).
+  replace (ob_round last <? x) with true by (symmetry; apply Z.ltb_lt; lia).
+  replace (x <=? e_now ev) with false by (symmetry; apply Z.leb_gt; lia). reflexivity.
+Qed.
+
+Lemma reject_future rg ev s e tok amt liq :
+  (forall last, vget (rg_obs rg) (rg_cur rg) = Ok last -> ob_round last <= e_now ev) ->
+  e_now ev < e ->
+  is_ok (get_safe_price N rg ev s e tok amt) = false /\ is_ok (get_lp_safe_price N rg ev s e liq) = false /\
+  is_ok (view_observation N rg ev e) = false.
+Proof.
+  intros Hlast He. pose proof (lookup_future rg ev e Hlast He) as Hf.
+  unfold get_safe_price, get_lp_safe_price, view_observation.
+  destruct (get_price_observation N rg ev e) as [oe|] eqn:Ee; [discriminate|].
+  repeat split.
+  - destruct (s <? e); [|reflexivity]. destruct (get_oldest N rg); [|reflexivity]. cbn [bind].
+    destruct (ob_round a <=? s); [|reflexivity].
+    destruct (get_price_observation N rg ev s); reflexivity.
+  - destruct (s <? e); [|reflexivity]. destruct (get_oldest N rg); [|reflexivity]. cbn [bind].
+    destruct (ob_round a <=? s); [|reflexivity].
+    destruct (get_price_observation N rg ev s); reflexivity.
+  - destruct (get_oldest N rg); [|reflexivity]. cbn [bind]. destruct (ob_round a <=? e); reflexivity.
+Qed.
+
+(** ================================================================== from recording calls to all calls *)
+Lemma start_eff us : forall lr c t, nondecr_from lr us -> lr < t ->
+  start us c t = start (eff_from lr us) c t.
+Proof.
+  induction us as [|u r IH]; intros lr c t Hnd Ht; [reflexivity|].
+  destruct Hnd as [Hle Hnd]. simpl.
+  destruct (u_zero u) eqn:Ez; simpl.
+  - apply IH; [apply (nondecr_weaken r (u_round u)); assumption | exact Ht].
+  - destruct (u_round u =? lr) eqn:Er.
+    + apply Z.eqb_eq in Er. replace (t <=? u_round u) with false by (symmetry; apply Z.leb_gt; lia).
+      apply IH; [apply (nondecr_weaken r (u_round u)); assumption | exact Ht].
+    + simpl. rewrite Ez. simpl. destruct (t <=? u_round u) eqn:Et; [reflexivity|].
+      apply Z.leb_gt in Et. apply IH; assumption.
+Qed.
+
+Lemma acc_eff g us c x : wf_calls us -> acc g us c x = accE g (eff us) c x.
+Proof.
+  intros [Hnd Hnn]. unfold acc, accE, first_upd. fold u0. f_equal.
+  apply sumr_ext. intros t Ht. f_equal. apply start_eff; [exact Hnd|].
+  assert (0 <= u_round (hd u0 (eff us))); [|lia].
+  destruct (eff us) as [|e0 E'] eqn:EE; [simpl; lia|].
+  pose proof (eff_strict us 0 Hnd) as Hs. unfold eff in EE. rewrite EE in Hs. simpl in *. lia.
+Qed.
+
+Lemma acc_obs_eff us c x : wf_calls us -> acc_obs us c x = acc_obsE (eff us) c x.
+Proof.
+  intros H. unfold acc_obs, acc_obsE. rewrite !acc_eff by exact H. unfold first_upd. reflexivity.
+Qed.
+
+Definition avg (g : upd -> Z) (us : list upd) (c : upd) (s e : Z) : Z :=
+  sumr (fun t => g (start us c t)) s e / (e - s).
+
+Lemma avg_eff g us c s e : wf_calls us -> 0 <= s -> avg g us c s e = avgE g (eff us) c s e.
+Proof.
+  intros [Hnd _] Hs. unfold avg, avgE. f_equal. apply sumr_ext. intros t Ht. f_equal.
+  apply start_eff; [exact Hnd | lia].
+Qed.
+
+Definition ring_of (us : list upd) : ring := layout N (observations us).
+
+Theorem ring_refine us : wf_calls us -> run_updates N ring0 us = Ok (ring_of us).
+Proof.
+  intros [Hnd _]. pose proof (run_updates_layout us [] I Hnd) as H.
+  change (chain []) with (@nil obs) in H. rewrite layout_small in H by (change (vlen []) with 0; lia).
+  exact H.
+Qed.
+
+Lemma eff_facts us : wf_calls us -> strict_from 0 (eff us) /\ Forall pos_upd (eff us).
+Proof. intros [Hnd Hnn]. split; [apply eff_strict; exact Hnd | apply eff_pos; exact Hnn]. Qed.
+
+Lemma eff_last_le us now : 0 <= now -> (forall u, In u us -> u_round u <= now) -> last_round (eff us) <= now.
+Proof.
+  intros H0 H. unfold last_round. destruct (eff us) as [|e0 E'] eqn:EE; [simpl; lia|].
+  apply H. apply (eff_incl us 0). fold (eff us). rewrite EE.
+  assert (Hne : e0 :: E' <> []) by discriminate.
+  destruct (exists_last Hne) as (l' & a & Heq). rewrite Heq, last_last.
+  apply in_or_app. right. left. reflexivity.
+Qed.
+
+Lemma oldest_us us o : wf_calls us -> get_oldest N (ring_of us) = Ok o ->
+  eff us <> [] /\ ob_round o = oldest_round (eff us).
+Proof.
+  intros Hwf Ho. unfold ring_of, observations in Ho.
+  destruct (eff us) as [|e0 E'] eqn:EE.
+  - exfalso. change (chain []) with (@nil obs) in Ho. rewrite layout_small in Ho by (change (vlen []) with 0; lia).
+    unfold get_oldest in Ho. simpl in Ho. discriminate.
+  - split; [discriminate|]. destruct (get_oldest_round (e0 :: E') ltac:(discriminate)) as (o' & Ho' & Hr).
+    rewrite Ho in Ho'. inversion Ho'. subst. exact Hr.
+Qed.
+
+(** C13_update: what is recorded *)
+Theorem update_spec us c : wf_calls us ->
+  run_updates N ring0 us = Ok (ring_of us) /\
+  strict_from 0 (eff us) /\ Forall pos_upd (eff us) /\
+  (forall u, In u (eff us) -> In u us /\ start us c (u_round u) = u) /\
+  length (observations us) = length (eff us) /\
+  (forall j, (j < length (eff us))%nat ->
+     nth j (observations us) obs0 = acc_obs us c (u_round (nth j (eff us) u0))).
+Proof.
+  intros Hwf. destruct (eff_facts us Hwf) as [Hs Hp]. destruct Hwf as [Hnd Hnn].
+  split; [apply ring_refine; split; assumption|]. split; [exact Hs|]. split; [exact Hp|].
+  split; [|split].
+  - intros u Hu. split; [apply (eff_incl us 0); exact Hu|].
+    destruct (In_nth _ _ u0 Hu) as (j & Hj & Hn).
+    pose proof (strict_nth (eff us) 0 j Hs Hj) as Hpos. rewrite Hn in Hpos.
+    rewrite (start_eff us 0) by (try assumption; lia). fold (eff us).
+    rewrite <- Hn. apply start_at; [exact Hp | exact Hj | | lia].
+    intros i Hi. apply (strict_mono (eff us) 0); assumption.
+  - unfold observations, chain. apply chain_from_length.
+  - intros j Hj. unfold observations. rewrite (chain_nth_closed (eff us) c j) by assumption.
+    symmetry. apply acc_obs_eff. split; assumption.
+Qed.
+
+(** C13_ring: where each recorded observation is stored *)
+Theorem ring_spec l : 0 < vlen l ->
+  vlen (rg_obs (layout N l)) = Z.min (vlen l) N /\
+  rg_cur (layout N l) = (vlen l - 1) mod N + 1 /\
+  (forall j, vlen l - Z.min (vlen l) N < j <= vlen l ->
+     vget (rg_obs (layout N l)) ((j - 1) mod N + 1) = Ok (nth (Z.to_nat (j - 1)) l obs0)).
+Proof.
+  intros Hk. split; [apply layout_len|]. split.
+  - rewrite layout_cur. destruct (vlen l <=? N) eqn:E; [|reflexivity].
+    apply Z.leb_le in E. destruct (Z.eq_dec (vlen l) N) as [->|Hne].
+    + replace (N - 1) with (N - 1) by lia. rewrite Z.mod_small by lia. lia.
+    + rewrite Z.mod_small by lia. lia.
+  - intros j Hj.
+    pose proof (Z.mod_pos_bound (j - 1) N ltac:(lia)) as Hrj.
+    pose proof (Z.div_mod (j - 1) N ltac:(lia)) as Hdj.
+    assert (Hi : 1 <= (j - 1) mod N + 1 <= vlen (rg_obs (layout N l))).
+    { rewrite layout_len. destruct (Z_le_gt_dec (vlen l) N) as [Hs|Hs]; [|lia].
+      rewrite Z.mod_small by lia. lia. }
+    rewrite layout_get by exact Hi. f_equal. f_equal. f_equal. f_equal.
+    unfold num. rewrite layout_cur.
+    destruct (vlen l <=? N) eqn:E.
+    + apply Z.leb_le in E. rewrite Z.mod_small by lia.
+      replace (j - 1 + 1 <=? vlen l) with true by (symmetry; apply Z.leb_le; lia). lia.
+    + apply Z.leb_gt in E. unfold lay_cur.
+      pose proof (Z.mod_pos_bound (vlen l - 1) N ltac:(lia)) as Hrk.
+      pose proof (Z.div_mod (vlen l - 1) N ltac:(lia)) as Hdk.
+      set (qk := (vlen l - 1) / N) in *. set (rk := (vlen l - 1) mod N) in *.
+      set (qj := (j - 1) / N) in *. set (rj := (j - 1) mod N) in *. clearbody qk rk qj rj.
+      destruct (rj + 1 <=? rk + 1) eqn:El; [apply Z.leb_le in El | apply Z.leb_gt in El].
+      * assert (qj = qk) by nia. nia.
+      * assert (qj = qk - 1) by nia. nia.
+Qed.
+
+(** C13_search, in terms of what is stored in the ring: [j], [S j] are the (0-based) numbers of two
+    consecutive recorded observations enclosing [x]; [idx] holds one of them and the slot the
+    interpolation reads next (idx mod N + 1, or idx - 1) holds the other *)
+Definition encloses (l : list obs) (L : list obs) (x idx : Z) : Prop :=
+  exists j, (S j < length l)%nat /\
+    ob_round (nth j l obs0) < x < ob_round (nth (S j) l obs0) /\
+    ((vget L idx = Ok (nth j l obs0) /\ vget L (idx mod N + 1) = Ok (nth (S j) l obs0)) \/
+     (idx <> 1 /\ vget L (idx - 1) = Ok (nth j l obs0) /\ vget L idx = Ok (nth (S j) l obs0))).
+
+Theorem search_spec l x : sorted_obs l -> 0 < vlen l ->
+  ob_round (nth (Z.to_nat (Z.max 0 (vlen l - N))) l obs0) <= x -> x < ob_round (last l obs0) ->
+  let rg := layout N l in
+  exists po idx, bsearch N rg x = Ok (po, idx) /\ 1 <= idx <= vlen (rg_obs rg) /\
+    ((vget (rg_obs rg) idx = Ok po /\ ob_round po = x) \/
+     (po = obs0 /\ encloses l (rg_obs rg) x idx)).
+Proof.
+  intros Hs Hk Hold Hnew rg.
+  destruct (bsearch_spec l Hk x Hs) as (po & idx & Hb & Hidx & Hres).
+  { unfold rnd. replace (Z.max 0 (vlen l - N) + 1 - 1) with (Z.max 0 (vlen l - N)) by lia. exact Hold. }
+  { exact Hnew. }
+  exists po, idx. split; [exact Hb|]. split; [exact Hidx|].
+  pose proof (laid_num_range l Hk idx Hidx) as Hnr.
+  destruct Hres as [(Hpo & Hr) | (Hpo & Hadj)].
+  - left. split; [|exact Hr]. subst rg. rewrite layout_get by exact Hidx. f_equal. symmetry. exact Hpo.
+  - right. split; [exact Hpo|]. unfold adj_ring in Hadj. cbv zeta in Hadj.
+    set (m := num (vlen l) (rg_cur (layout N l)) idx) in *.
+    rewrite layout_len in *.
+    destruct Hadj as [(Hlt & Hgt & Hm1 & Hi1 & Hn1) | (Hlt & Hgt & Hm1 & Hne1 & Hi1 & Hn1)].
+    + exists (Z.to_nat (m - 1)). split; [unfold vlen in *; lia|]. split.
+      * unfold rnd in *. replace (Z.to_nat (m + 1 - 1)) with (S (Z.to_nat (m - 1))) in Hgt by lia. lia.
+      * left. subst rg. split.
+        -- rewrite layout_get by (rewrite layout_len; lia). reflexivity.
+        -- rewrite layout_get by (rewrite layout_len; lia). rewrite Hn1. f_equal. f_equal. lia.
+    + exists (Z.to_nat (m - 1 - 1)). split; [unfold vlen in *; lia|]. split.
+      * unfold rnd in *. replace (S (Z.to_nat (m - 1 - 1))) with (Z.to_nat (m - 1)) by lia. lia.
+      * right. subst rg. split; [exact Hne1|]. split.
+        -- rewrite layout_get by (rewrite layout_len; lia). rewrite Hn1. reflexivity.
+        -- rewrite layout_get by (rewrite layout_len; lia). f_equal. f_equal. fold m. lia.
+Qed.
+
+Lemma observations_sorted us : wf_calls us -> sorted_obs (observations us).
+Proof. intros Hwf. apply chain_sorted. apply eff_facts. exact Hwf. Qed.
+
+(** C13_lookup *)
+Theorem lookup_spec us ev o x : wf_calls us -> (forall u, In u us -> u_round u <= e_now ev) ->
+  get_oldest N (ring_of us) = Ok o -> ob_round o <= x -> x <= e_now ev ->
+  get_price_observation N (ring_of us) ev x = Ok (acc_obs us (cur_upd ev) x).
+Proof.
+  intros Hwf Hnow Ho Hox Hx. destruct (oldest_us us o Hwf Ho) as [Hne Hor].
+  destruct (eff_facts us Hwf) as [Hs Hp].
+  pose proof (oldest_pos (eff us) Hs Hne) as Hop.
+  rewrite acc_obs_eff by exact Hwf. unfold ring_of, observations.
+  apply lookup_exact; try assumption; [apply eff_last_le; [lia | exact Hnow] | lia].
+Qed.
+
+(** C13_query *)
+Theorem price_spec us ev o s e tok amt : wf_calls us -> (forall u, In u us -> u_round u <= e_now ev) ->
+  pos_upd (cur_upd ev) ->
+  get_oldest N (ring_of us) = Ok o -> ob_round o <= s -> s < e -> e <= e_now ev ->
+  get_safe_price N (ring_of us) ev s e tok amt =
+    let c := cur_upd ev in
+    if tok =? T1 then Ok (T2, amt * avg u_r2 us c s e / avg u_r1 us c s e)
+    else if tok =? T2 then Ok (T1, amt * avg u_r1 us c s e / avg u_r2 us c s e)
+    else Err EGuard.
+Proof.
+  intros Hwf Hnow Hc Ho Hos Hse He. destruct (oldest_us us o Hwf Ho) as [Hne Hor].
+  destruct (eff_facts us Hwf) as [Hs Hp].
+  pose proof (oldest_pos (eff us) Hs Hne) as Hop.
+  cbv zeta. rewrite (avg_eff u_r1), (avg_eff u_r2) by (try assumption; lia). unfold ring_of, observations.
+  apply (safe_price_formula (eff us)); try assumption; [apply eff_last_le; [lia | exact Hnow] | lia].
+Qed.
+
+Theorem lp_price_spec us ev o s e liq : wf_calls us -> (forall u, In u us -> u_round u <= e_now ev) ->
+  pos_upd (cur_upd ev) ->
+  get_oldest N (ring_of us) = Ok o -> ob_round o <= s -> s < e -> e <= e_now ev ->
+  get_lp_safe_price N (ring_of us) ev s e liq =
+    let c := cur_upd ev in
+    Ok (liq * avg u_r1 us c s e / avg u_S us c s e, liq * avg u_r2 us c s e / avg u_S us c s e).
+Proof.
+  intros Hwf Hnow Hc Ho Hos Hse He. destruct (oldest_us us o Hwf Ho) as [Hne Hor].
+  destruct (eff_facts us Hwf) as [Hs Hp].
+  pose proof (oldest_pos (eff us) Hs Hne) as Hop.
+  cbv zeta. rewrite (avg_eff u_r1), (avg_eff u_r2), (avg_eff u_S) by (try assumption; lia).
+  unfold ring_of, observations.
+  apply (lp_safe_price_formula (eff us)); try assumption; [apply eff_last_le; [lia | exact Hnow] | lia].
+Qed.
+
+(** the averages are averages: floor of the sum over the window divided by its length, and never 0 *)
+Lemma avg_bounds g us c s e : wf_calls us -> pos_upd c -> (forall u, pos_upd u -> 1 <= g u) -> 0 <= s -> s < e ->
+  1 <= avg g us c s e /\
+  avg g us c s e * (e - s) <= sumr (fun t => g (start us c t)) s e < avg g us c s e * (e - s) + (e - s).
+Proof.
+  intros Hwf Hc Hg Hs Hse. destruct (eff_facts us Hwf) as [_ Hp]. split.
+  - rewrite avg_eff by assumption. apply avgE_pos; assumption.
+  - unfold avg. split; [apply div_lo; lia | apply div_hi; lia].
+Qed.
+
+(** C13_reject on the contract's ring *)
+Theorem reject_spec us ev s e tok amt liq : wf_calls us -> (forall u, In u us -> u_round u <= e_now ev) ->
+  0 <= e_now ev ->
+  (e <= s \/ e_now ev < e \/ eff us = [] \/ (exists o, get_oldest N (ring_of us) = Ok o /\ s < ob_round o)) ->
+  is_ok (get_safe_price N (ring_of us) ev s e tok amt) = false /\
+  is_ok (get_lp_safe_price N (ring_of us) ev s e liq) = false.
+Proof.
+  intros Hwf Hnow H0 [H|[H|[H|(o & Ho & H)]]].
+  - apply reject_order. exact H.
+  - destruct (reject_future (ring_of us) ev s e tok amt liq) as (A & B & _); [|exact H|split; assumption].
+    intros last Hl. destruct (eff_facts us Hwf) as [Hs Hp].
+    unfold ring_of, observations in Hl.
+    destruct (eff us) as [|e0 E'] eqn:EE.
+    + change (chain []) with (@nil obs) in Hl. rewrite layout_small in Hl by (change (vlen []) with 0; lia).
+      unfold vget in Hl. simpl in Hl. discriminate.
+    + rewrite <- EE in *. assert (Hne : eff us <> []) by (rewrite EE; discriminate).
+      rewrite layout_last in Hl by (rewrite chain_length; destruct (eff us); [congruence | simpl length; lia]).
+      inversion Hl. rewrite chain_last_round. apply eff_last_le; assumption.
+  - destruct (reject_empty (ring_of us) ev s e tok amt liq 0) as (A & B & _); [|split; assumption].
+    unfold ring_of, observations. rewrite H. change (chain []) with (@nil obs).
+    rewrite layout_small by (change (vlen []) with 0; lia). reflexivity.
+  - destruct (reject_too_old (ring_of us) ev s e tok amt liq o Ho H) as (A & B & _). split; assumption.
+Qed.
+
+Theorem reject_observation us ev x : wf_calls us -> (forall u, In u us -> u_round u <= e_now ev) ->
+  0 <= e_now ev ->
+  (e_now ev < x \/ eff us = [] \/ (exists o, get_oldest N (ring_of us) = Ok o /\ x < ob_round o)) ->
+  is_ok (view_observation N (ring_of us) ev x) = false.
+Proof.
+  intros Hwf Hnow H0 [H|[H|(o & Ho & H)]].
+  - destruct (reject_future (ring_of us) ev 0 x 0 0 0) as (_ & _ & C); [|exact H|exact C].
+    intros last Hl. destruct (eff_facts us Hwf) as [Hs Hp].
+    unfold ring_of, observations in Hl.
+    destruct (eff us) as [|e0 E'] eqn:EE.
+    + change (chain []) with (@nil obs) in Hl. rewrite layout_small in Hl by (change (vlen []) with 0; lia).
+      unfold vget in Hl. simpl in Hl. discriminate.
+    + rewrite <- EE in *. assert (Hne : eff us <> []) by (rewrite EE; discriminate).
+      rewrite layout_last in Hl by (rewrite chain_length; destruct (eff us); [congruence | simpl length; lia]).
+      inversion Hl. rewrite chain_last_round. apply eff_last_le; assumption.
+  - destruct (reject_empty (ring_of us) ev 0 0 0 0 0 x) as (_ & _ & C); [|exact C].
+    unfold ring_of, observations. rewrite H. change (chain []) with (@nil obs).
+    rewrite layout_small by (change (vlen []) with 0; lia). reflexivity.
+  - destruct (reject_too_old (ring_of us) ev x 0 0 0 0 o Ho H) as (_ & _ & C). exact C.
+Qed.
+
+End WithN.
+
+(** ================================================================== constants, entry points *)
+Lemma max_obs_ge2 : 2 <= MAX_OBSERVATIONS.
+Proof. vm_compute. discriminate. Qed.
+
+Lemma offsets_spec N rg ev :
+  (forall off s, offset_start ev off = Ok s <-> (0 < off < e_now ev /\ s = e_now ev - off)) /\
+  (forall o, get_oldest N rg = Ok o -> ob_round o <= e_now ev ->
+     default_start N rg ev = Ok (e_now ev - Z.min DEFAULT_SAFE_PRICE_ROUNDS_OFFSET (e_now ev - ob_round o))).
+Proof.
+  split.
+  - intros off s. unfold offset_start. destruct ((0 <? off) && (off <? e_now ev)) eqn:E.
+    + apply andb_prop in E. destruct E as [E1 E2]. apply Z.ltb_lt in E1, E2. split.
+      * intros H. inversion H. lia.
+      * intros [_ ->]. reflexivity.
+    + split; [discriminate|]. intros [[H1 H2] _].
+      apply andb_false_iff in E. destruct E as [E|E]; apply Z.ltb_ge in E; lia.
+  - intros o Ho Hle. unfold default_start. rewrite Ho. cbn [bind]. unfold sub_chk.
+    replace (e_now ev <? ob_round o) with false by (symmetry; apply Z.ltb_ge; lia). cbn [bind].
+    f_equal. f_equal.
+    destruct (DEFAULT_SAFE_PRICE_ROUNDS_OFFSET <? e_now ev - ob_round o) eqn:E;
+      [apply Z.ltb_lt in E | apply Z.ltb_ge in E]; lia.
+Qed.
+
+(** ================================================================== composition with the pool model *)
+(** the update calls made along a run of timed pool operations *)
+Fixpoint calls_of (N : Z) (w : spw) (ops : list (Z * pop)) : list upd :=
+  match ops with
+  | [] => []
+  | rop :: t =>
+      match sp_step N w (fst rop) (snd rop) with
+      | Ok (w', _) =>
+          (if updating (snd rop) then [upd_of (fst rop) (w_p (sw_w w))] else []) ++ calls_of N w' t
+      | Err _ => calls_of N w t
+      end
+  end.
+
+Fixpoint before (t : Z) (ops : list (Z * pop)) : list (Z * pop) :=
+  match ops with
+  | [] => []
+  | rop :: r => if fst rop <? t then rop :: before t r else []
+  end.
+
+Fixpoint rounds_from (lr : Z) (ops : list (Z * pop)) : Prop :=
+  match ops with [] => True | rop :: r => lr <= fst rop /\ rounds_from (fst rop) r end.
+
+Definition same_res (u : upd) (p : pair) : Prop :=
+  u_r1 u = p_r1 p /\ u_r2 u = p_r2 p /\ u_S u = p_S p.
+
+Lemma sp_step_ok N w r op w' o : sp_step N w r op = Ok (w', o) ->
+  exists e, wstep (sw_w w) op = Ok (sw_w w', o, e) /\
+    (if updating op then update_u N (sw_ring w) (upd_of r (w_p (sw_w w))) = Ok (sw_ring w')
+     else sw_ring w' = sw_ring w).
+Proof.
+  unfold sp_step. intros H. apply bind_ok in H. destruct H as ([[w1 o1] e1] & Hw & H).
+  apply bind_ok in H. destruct H as (rg' & Hr & H). inversion H; subst; clear H. simpl.
+  exists e1. split; [exact Hw|]. destruct (updating op); [exact Hr | inversion Hr; reflexivity].
+Qed.
+
+Theorem sp_run_ring N ops : forall w,
+  run_updates N (sw_ring w) (calls_of N w ops) = Ok (sw_ring (sp_run N w ops)).
+Proof.
+  induction ops as [|rop t IH]; intros w; [reflexivity|].
+  unfold sp_run in *. simpl fold_left. simpl calls_of. unfold sp_step_total at 2.
+  destruct (sp_step N w (fst rop) (snd rop)) as [[w' o]|] eqn:Es; [|apply IH].
+  destruct (sp_step_ok _ _ _ _ _ _ Es) as (e & _ & Hr).
+  destruct (updating (snd rop)).
+  - simpl app. simpl run_updates. rewrite Hr. cbn [bind]. apply IH.
+  - simpl app. rewrite <- Hr. apply IH.
+Qed.
+
+(** reserves and LP supply move only inside the operations that call update_safe_price,
+    once the pool is initialised *)
+Lemma quiet_ops w op w' o e : wstep w op = Ok (w', o, e) -> updating op = false -> 0 < p_S (w_p w) ->
+  p_r1 (w_p w') = p_r1 (w_p w) /\ p_r2 (w_p w') = p_r2 (w_p w) /\ p_S (w_p w') = p_S (w_p w).
+Proof.
+  unfold wstep. intros H Hu HS.
+  apply bind_ok in H. destruct H as ([[p' o1] e1] & Hs & H).
+  apply bind_ok in H. destruct H as (q' & Hx & H). inversion H; subst; clear H. simpl.
+  destruct op; try discriminate Hu; simpl in Hs.
+  - unfold ep_add_initial in Hs. inv_ok Hs. apply Z.eqb_eq in E2. lia.
+  - unfold ep_set_fee in Hs. inv_ok Hs. simpl. auto.
+  - unfold ep_set_fee_on in Hs. destruct en; inv_ok Hs; simpl; auto.
+  - unfold ep_set_collector in Hs. inv_ok Hs. simpl. auto.
+  - unfold ep_set_state in Hs. inv_ok Hs. simpl. auto.
+  - unfold ep_wl_add in Hs. inv_ok Hs. simpl. auto.
+  - unfold ep_wl_rm in Hs. inv_ok Hs. simpl. auto.
+  - unfold ep_trust in Hs. inv_ok Hs. simpl. auto.
+  - unfold ep_lp_transfer, lp_debit, lp_credit in Hs. inv_ok Hs. simpl. inv_ok Hb. simpl. auto.
+  - unfold ep_donate, add_bal in Hs. inv_ok Hs. destruct (tok =? T1); simpl; auto.
+Qed.
+
+Lemma sp_step_inv N w r op w' o : sp_step N w r op = Ok (w', o) -> WorldInv (sw_w w) -> WorldInv (sw_w w').
+Proof.
+  intros H Hi. destruct (sp_step_ok _ _ _ _ _ _ H) as (e & Hw & _).
+  apply wstep_inv in Hw; tauto.
+Qed.
+
+Lemma sp_step_total_inv N w rop : WorldInv (sw_w w) -> WorldInv (sw_w (sp_step_total N w rop)).
+Proof.
+  intros Hi. unfold sp_step_total. destruct (sp_step N w (fst rop) (snd rop)) as [[w' o]|] eqn:E; [|exact Hi].
+  eapply sp_step_inv; eassumption.
+Qed.
+
+Lemma rounds_from_weaken ops : forall a b, rounds_from a ops -> b <= a -> rounds_from b ops.
+Proof. destruct ops; intros a b H Hb; simpl in *; [auto | split; [lia | tauto]]. Qed.
+
+Lemma sp_run_cons N w rop r : sp_run N w (rop :: r) = sp_run N (sp_step_total N w rop) r.
+Proof. reflexivity. Qed.
+
+(** operations of rounds >= t do not disturb what round t starts with: the first successful
+    reserve-changing one reports exactly the reserves the pool holds now *)
+Lemma later_ops N t ops : forall w lr, WorldInv (sw_w w) -> rounds_from lr ops -> t <= lr ->
+  0 < p_S (w_p (sw_w w)) ->
+  same_res (start (calls_of N w ops) (upd_of 0 (w_p (sw_w (sp_run N w ops)))) t) (w_p (sw_w w)).
+Proof.
+  induction ops as [|rop r IH]; intros w lr Hi Hr Ht HS.
+  - simpl. unfold same_res, upd_of. simpl. auto.
+  - destruct Hr as [Hle Hr]. rewrite sp_run_cons. simpl calls_of. unfold sp_step_total.
+    destruct (sp_step N w (fst rop) (snd rop)) as [[w' o]|] eqn:Es.
+    2:{ apply (IH w (fst rop)); try assumption. lia. }
+    destruct (sp_step_ok _ _ _ _ _ _ Es) as (e & Hw & _).
+    destruct (updating (snd rop)) eqn:Eu.
+    + simpl app. simpl start.
+      destruct Hi as [Hp _]. destruct (i_pos _ Hp HS) as (H1 & H2 & _).
+      assert (Hz : u_zero (upd_of (fst rop) (w_p (sw_w w))) = false).
+      { unfold u_zero, upd_of. simpl.
+        replace (p_r1 (w_p (sw_w w)) =? 0) with false by (symmetry; apply Z.eqb_neq; lia).
+        replace (p_r2 (w_p (sw_w w)) =? 0) with false by (symmetry; apply Z.eqb_neq; lia).
+        replace (p_S (w_p (sw_w w)) =? 0) with false by (symmetry; apply Z.eqb_neq; lia). reflexivity. }
+      rewrite Hz. simpl negb. simpl andb.
+      replace (t <=? fst rop) with true by (symmetry; apply Z.leb_le; lia).
+      unfold same_res, upd_of. simpl. auto.
+    + simpl app.
+      destruct (quiet_ops _ _ _ _ _ Hw Eu HS) as (Q1 & Q2 & Q3).
+      assert (Hi' : WorldInv (sw_w w')) by (eapply sp_step_inv; eassumption).
+      pose proof (IH w' (fst rop) Hi' Hr ltac:(lia) ltac:(lia)) as Hres.
+      unfold same_res in *. rewrite Q1, Q2, Q3 in Hres. exact Hres.
+Qed.
+
+(** C13_start_of_round *)
+Theorem start_of_round N ops : forall w t lr, WorldInv (sw_w w) -> rounds_from lr ops ->
+  let wt := sp_run N w (before t ops) in
+  let wf := sp_run N w ops in
+  0 < p_S (w_p (sw_w wt)) ->
+  same_res (start (calls_of N w ops) (upd_of 0 (w_p (sw_w wf))) t) (w_p (sw_w wt)).
+Proof.
+  induction ops as [|rop r IH]; intros w t lr Hi Hr wt wf HS; subst wt wf.
+  - simpl. unfold same_res, upd_of. simpl. auto.
+  - simpl before in *. destruct (fst rop <? t) eqn:Elt.
+    + apply Z.ltb_lt in Elt. destruct Hr as [Hle Hr].
+      rewrite !sp_run_cons in *. simpl calls_of.
+      pose proof (sp_step_total_inv N w rop Hi) as Hi1.
+      specialize (IH (sp_step_total N w rop) t (fst rop) Hi1 Hr HS).
+      unfold sp_step_total in *.
+      destruct (sp_step N w (fst rop) (snd rop)) as [[w' o]|] eqn:Es; [|exact IH].
+      destruct (updating (snd rop)); [|exact IH].
+      simpl app. simpl start.
+      replace (t <=? fst rop) with false by (symmetry; apply Z.leb_gt; lia).
+      rewrite andb_false_r. exact IH.
+    + apply Z.ltb_ge in Elt. simpl in HS.
+      destruct Hr as [Hle Hr].
+      apply (later_ops N t (rop :: r) w (fst rop)).
+      * exact Hi.
+      * simpl. split; [lia | exact Hr].
+      * lia.
+      * exact HS.
+Qed.
